@@ -40,6 +40,22 @@ theorem countP_eraseIdx_add {α} (p : α → Bool) : ∀ (l : List α) (i : Nat)
       have := ih i a h
       simp [List.countP_cons]; omega
 
+theorem sum_map_set_add {α} (f : α → Nat) : ∀ (l : List α) (i : Nat) (a x : α), l[i]? = some a →
+    ((l.set i x).map f).sum + f a = (l.map f).sum + f x := by
+  intro l
+  induction l with
+  | nil => intro i a x h; simp at h
+  | cons b l ih =>
+    intro i a x h
+    cases i with
+    | zero =>
+      simp at h; subst h
+      simp [List.sum_cons]; omega
+    | succ i =>
+      simp at h
+      have := ih i a x h
+      simp only [List.set_cons_succ, List.map_cons, List.sum_cons]; omega
+
 /-! ### referrers -/
 
 /-- does the object hold a link to Storage σ -/
@@ -86,8 +102,7 @@ theorem refs_nil (σ : Nat) : refs σ [] = 0 := rfl
 /-! ### the invariant -/
 
 /-- the view lies inside an allocation of `size` elements -/
-def Inside (o : Obj) (size : Nat) : Prop :=
-  (o.len = 0 → o.off ≤ size) ∧ (0 < o.len → o.off + (o.len - 1) * o.stride < size)
+def Inside (o : Obj) (size : Nat) : Prop := o.off + extentOf o ≤ size
 
 /-- the invariant on the four components it mentions -/
 structure InvC (h : List Sto) (p : List Obj) (c d : Nat) : Prop where
@@ -101,13 +116,44 @@ structure InvC (h : List Sto) (p : List Obj) (c d : Nat) : Prop where
   created : c = h.length
   deleted : d = h.countP (fun r => r.freed)
 
-def Inv (s : St) : Prop := InvC s.heap s.pool s.created s.deleted
+/-- gradients a Storage object holds registered: its `n_` while it is active and has not been deleted -/
+def gradOf (r : Sto) : Nat := if r.active && !r.freed then r.size else 0
+
+/-- gradients registered by all Storage objects that have not been deleted -/
+def gradSum (h : List Sto) : Nat := (h.map gradOf).sum
+
+/-- the invariant of the life-cycle model: reference counts (`core`) and gradient registration (`grad`) -/
+structure Inv (s : St) : Prop where
+  core : InvC s.heap s.pool s.created s.deleted
+  /-- `n_gradients_registered()` is exactly what the live active Storage objects registered -/
+  grad : s.gradReg = gradSum s.heap
+
+theorem Inv.counts {s : St} (I : Inv s) :
+    ∀ σ r, s.heap[σ]? = some r → r.freed = false → r.nLinks = refs σ s.pool ∧ 0 < r.nLinks := I.core.counts
+theorem Inv.objs {s : St} (I : Inv s) : ∀ o, o ∈ s.pool → ∀ σ, o.storage = some σ →
+    ∃ r, s.heap[σ]? = some r ∧ r.freed = false ∧ o.region = .sto σ ∧ Inside o r.size := I.core.objs
+theorem Inv.inScope {s : St} (I : Inv s) : ∀ o, o ∈ s.pool → ∀ σ, o.region = .sto σ → σ < s.heap.length :=
+  I.core.inScope
+theorem Inv.created {s : St} (I : Inv s) : s.created = s.heap.length := I.core.created
+theorem Inv.deleted {s : St} (I : Inv s) : s.deleted = s.heap.countP (fun r => r.freed) := I.core.deleted
 
 theorem inv_init : Inv init := by
-  refine ⟨?_, ?_, ?_, rfl, rfl⟩
+  refine ⟨⟨?_, ?_, ?_, rfl, rfl⟩, rfl⟩
   · intro σ r h; simp [init] at h
   · intro o h; simp [init] at h
   · intro o h; simp [init] at h
+
+theorem gradSum_set {h : List Sto} {σ : Nat} {r r' : Sto} (hr : h[σ]? = some r) :
+    gradSum (h.set σ r') + gradOf r = gradSum h + gradOf r' :=
+  sum_map_set_add gradOf h σ r r' hr
+
+theorem gradSum_set_same {h : List Sto} {σ : Nat} {r r' : Sto} (hr : h[σ]? = some r) (he : gradOf r' = gradOf r) :
+    gradSum (h.set σ r') = gradSum h := by
+  have := gradSum_set (r' := r') hr
+  omega
+
+theorem gradSum_append (h : List Sto) (r : Sto) : gradSum (h ++ [r]) = gradSum h + gradOf r := by
+  simp [gradSum]
 
 /-- a deleted Storage has no referrer -/
 theorem InvC.freed_no_ref {h p c d} (I : InvC h p c d) {σ r} (hr : h[σ]? = some r) (hf : r.freed = true) :
@@ -153,7 +199,7 @@ theorem invC_set_none {h p c d} (I : InvC h p c d) {i : Nat} {a o : Obj} (ha : p
     · subst hm; exact hs σ hσ
 
 /-- heap entry after `add_link` -/
-def bump (r : Sto) : Sto := { nLinks := r.nLinks + 1, freed := false, size := r.size }
+def bump (r : Sto) : Sto := { nLinks := r.nLinks + 1, freed := false, size := r.size, active := r.active }
 
 theorem getElem?_set_self' {α} {l : List α} {i : Nat} {a x : α} (h : l[i]? = some a) : (l.set i x)[i]? = some x := by
   have : i < l.length := by
@@ -168,6 +214,9 @@ theorem countP_freed_set_same {h : List Sto} {σ : Nat} {r r' : Sto} (hr : h[σ]
   have := countP_set_add (fun r : Sto => r.freed) h σ r r' hr
   simp only [hf] at this
   omega
+
+theorem gradOf_bump {r : Sto} (hf : r.freed = false) : gradOf (bump r) = gradOf r := by
+  simp [gradOf, bump, hf]
 
 /-- shared core of the linking micro-steps: the heap entry of σ is bumped and the pool gains one referrer of σ -/
 theorem invC_link_core {h p p' c d} (I : InvC h p c d) {σ : Nat} {r : Sto} {o : Obj}
@@ -239,7 +288,7 @@ theorem invC_release {h p c d} (I : InvC h p c d) {i σ : Nat} {a : Obj}
       (r.nLinks - 1 = 0 →
         InvC (h.set σ { r with nLinks := 0, freed := true }) (p.set i (dropSto a)) c (d + 1)) ∧
       (r.nLinks - 1 ≠ 0 →
-        InvC (h.set σ { nLinks := r.nLinks - 1, freed := false, size := r.size }) (p.set i (dropSto a)) c d) := by
+        InvC (h.set σ { nLinks := r.nLinks - 1, freed := false, size := r.size, active := r.active }) (p.set i (dropSto a)) c d) := by
   have ham : a ∈ p := List.mem_of_getElem? ha
   obtain ⟨r, hr, hf, hreg, hin⟩ := I.objs a ham σ has
   obtain ⟨hcnt, hpos⟩ := I.counts σ r hr hf
@@ -321,23 +370,22 @@ theorem invC_erase_none {h p c d} (I : InvC h p c d) {i : Nat} {a : Obj} (ha : p
   · intro o hm; exact I.objs o (List.mem_of_mem_eraseIdx hm)
   · intro o hm; exact I.inScope o (List.mem_of_mem_eraseIdx hm)
 
-/-- the object a fresh allocation of `n` elements gives: `data_ = storage_->data()`, `offset_[0] = 1` -/
-def ownerOf (σ n : Nat) : Obj := { region := .sto σ, off := 0, storage := some σ, len := n, stride := 1 }
-
-theorem invC_alloc_set {h p c d} (I : InvC h p c d) {i n : Nat} {a : Obj} (ha : p[i]? = some a)
-    (has : a.storage = none) (hn : 0 < n) :
-    InvC (h ++ [{ nLinks := 1, freed := false, size := n }]) (p.set i (ownerOf h.length n)) (c + 1) d := by
-  have hmem : ∀ o', o' ∈ p.set i (ownerOf h.length n) → o' ∈ p ∨ o' = ownerOf h.length n :=
+/-- a fresh allocation of `n` elements handed to the object at position `i` -/
+theorem invC_alloc_set {h p c d} (I : InvC h p c d) {i n : Nat} {a o : Obj} {act : Bool} (ha : p[i]? = some a)
+    (has : a.storage = none) (hos : o.storage = some h.length) (hor : o.region = .sto h.length)
+    (hin : Inside o n) :
+    InvC (h ++ [{ nLinks := 1, freed := false, size := n, active := act }]) (p.set i o) (c + 1) d := by
+  have hmem : ∀ o', o' ∈ p.set i o → o' ∈ p ∨ o' = o :=
     fun o' hm => List.mem_or_eq_of_mem_set hm
-  have hrefs : ∀ τ, refs τ (p.set i (ownerOf h.length n)) = refs τ p + wt τ (ownerOf h.length n) := by
+  have hrefs : ∀ τ, refs τ (p.set i o) = refs τ p + wt τ o := by
     intro τ
-    have := refs_set (σ := τ) (x := ownerOf h.length n) ha
+    have := refs_set (σ := τ) (x := o) ha
     rw [wt_none has] at this; omega
   have hnew : refs h.length p = 0 := by
     apply Nat.eq_zero_of_not_pos
     intro hpos
-    obtain ⟨o, hm, ho⟩ := List.countP_pos_iff.mp hpos
-    obtain ⟨r', hr', _⟩ := I.objs o hm h.length (holds_iff.mp ho)
+    obtain ⟨o', hm, ho'⟩ := List.countP_pos_iff.mp hpos
+    obtain ⟨r', hr', _⟩ := I.objs o' hm h.length (holds_iff.mp ho')
     rcases List.getElem?_eq_some_iff.mp hr' with ⟨hlt, _⟩
     omega
   refine ⟨?_, ?_, ?_, by simp [I.created], ?_⟩
@@ -345,33 +393,30 @@ theorem invC_alloc_set {h p c d} (I : InvC h p c d) {i n : Nat} {a : Obj} (ha : 
     by_cases hτ : τ < h.length
     · rw [List.getElem?_append_left hτ] at hr
       have := I.counts τ r hr hf
-      rw [hrefs, wt_ne (τ := h.length) rfl (by omega)]; simpa using this
+      rw [hrefs, wt_ne hos (by omega)]; simpa using this
     · rw [List.getElem?_append_right (by omega)] at hr
       have : τ = h.length := by
         by_cases e : τ - h.length = 0
         · omega
-        · have : ([{ nLinks := 1, freed := false, size := n }] : List Sto)[τ - h.length]? = none := by
+        · have : ([{ nLinks := 1, freed := false, size := n, active := act }] : List Sto)[τ - h.length]? = none := by
             apply List.getElem?_eq_none; simp; omega
           rw [this] at hr; cases hr
       subst this
       simp at hr; subst hr
-      rw [hrefs, hnew, wt_eq rfl]; simp
+      rw [hrefs, hnew, wt_eq hos]; simp
   · intro o' hm τ hτ
     rcases hmem o' hm with hm' | hm'
     · obtain ⟨r'', h1, h2, h3, h4⟩ := I.objs o' hm' τ hτ
       rcases List.getElem?_eq_some_iff.mp h1 with ⟨hlt, _⟩
       exact ⟨r'', by rw [List.getElem?_append_left hlt]; exact h1, h2, h3, h4⟩
     · subst hm'
-      simp [ownerOf] at hτ; subst hτ
-      refine ⟨{ nLinks := 1, freed := false, size := n }, by simp, rfl, rfl, ?_⟩
-      constructor
-      · intro h0; simp [ownerOf] at h0; omega
-      · intro _; simp [ownerOf]; omega
+      rw [hos] at hτ; cases hτ
+      exact ⟨{ nLinks := 1, freed := false, size := n, active := act }, by simp, rfl, hor, hin⟩
   · intro o' hm τ hτ
     simp
     rcases hmem o' hm with hm' | hm'
     · have := I.inScope o' hm' τ hτ; omega
-    · subst hm'; simp [ownerOf] at hτ; omega
+    · subst hm'; rw [hor] at hτ; cases hτ; omega
   · simp [List.countP_append]; exact I.deleted
 
 theorem invC_swap {h p c d} (I : InvC h p c d) {i j : Nat} {a b : Obj} (ha : p[i]? = some a) (hb : p[j]? = some b) :
@@ -397,6 +442,39 @@ theorem invC_swap {h p c d} (I : InvC h p c d) {i j : Nat} {a b : Obj} (ha : p[i
   · intro o hm; exact I.objs o (hmem o hm)
   · intro o hm; exact I.inScope o (hmem o hm)
 
+/-! ### geometry of fresh owners -/
+
+theorem ownerOf_storage (k : Kind) (σ n0 n1 : Nat) : (ownerOf k σ n0 n1).storage = some σ := by
+  cases k <;> rfl
+
+theorem ownerOf_region (k : Kind) (σ n0 n1 : Nat) : (ownerOf k σ n0 n1).region = .sto σ := by
+  cases k <;> rfl
+
+theorem ownerOf_kind (k : Kind) (σ n0 n1 : Nat) : (ownerOf k σ n0 n1).kind = k := by
+  cases k <;> rfl
+
+/-- what `resize` allocates holds the whole packed object -/
+theorem ownerOf_inside (k : Kind) (σ n0 n1 : Nat) : Inside (ownerOf k σ n0 n1) (dataVolume k n0 n1) := by
+  unfold Inside
+  cases k with
+  | vec => simp only [ownerOf, extentOf, dataVolume]; by_cases h0 : n0 = 0 <;> simp [h0]; omega
+  | avec => simp only [ownerOf, extentOf, dataVolume]; by_cases h0 : n0 = 0 <;> simp [h0]; omega
+  | mat =>
+    simp only [ownerOf, extentOf, dataVolume]
+    by_cases hz : n0 = 0 ∨ n1 = 0
+    · simp [hz]
+    · simp only [hz, if_false]
+      cases n0 with
+      | zero => simp at hz
+      | succ m => rw [Nat.succ_mul]; simp; omega
+  | symm => simp only [ownerOf, extentOf, dataVolume]; by_cases h0 : n0 = 0 <;> simp [h0]
+  | tri => simp only [ownerOf, extentOf, dataVolume]; by_cases h0 : n0 = 0 <;> simp [h0]
+
+/-- an object without elements addresses nothing -/
+theorem cells_of_len_zero {o : Obj} (h : o.len = 0) : cells o = [] := by
+  unfold cells
+  cases o.kind <;> simp [h]
+
 /-! ### the operations preserve the invariant -/
 
 /-- the new object `o` may be stored in state `s`: what it holds is alive and contains its data -/
@@ -407,11 +485,14 @@ structure Fits (s : St) (o : Obj) : Prop where
 theorem fits_of_mem {s : St} (I : Inv s) {o : Obj} (hm : o ∈ s.pool) : Fits s o :=
   ⟨I.inScope o hm, I.objs o hm⟩
 
-theorem fits_blank (s : St) : Fits s {} := ⟨(by intro σ h; cases h), (by intro σ h; cases h)⟩
+theorem fits_blank (s : St) (k : Kind) : Fits s (blank k) :=
+  ⟨(by intro σ h; simp [blank] at h), (by intro σ h; simp [blank] at h)⟩
 
 theorem inv_of_same {s s' : St} (I : Inv s) (h1 : s'.heap = s.heap) (h2 : s'.pool = s.pool)
-    (h3 : s'.created = s.created) (h4 : s'.deleted = s.deleted) : Inv s' := by
-  unfold Inv; rw [h1, h2, h3, h4]; exact I
+    (h3 : s'.created = s.created) (h4 : s'.deleted = s.deleted) (h5 : s'.gradReg = s.gradReg) : Inv s' := by
+  refine ⟨?_, ?_⟩
+  · rw [h1, h2, h3, h4]; exact I.core
+  · rw [h5, h1]; exact I.grad
 
 theorem dropSto_of_none {a : Obj} (h : a.storage = none) : dropSto a = a := by
   cases a; simp [dropSto] at *; exact h.symm
@@ -419,6 +500,17 @@ theorem dropSto_of_none {a : Obj} (h : a.storage = none) : dropSto a = a := by
 theorem list_set_same {α} {l : List α} {i : Nat} {a : α} (h : l[i]? = some a) : l.set i a = l := by
   rcases List.getElem?_eq_some_iff.mp h with ⟨hlt, he⟩
   subst he; exact List.set_getElem_self hlt
+
+theorem getObj_ok {s : St} {i : Nat} {a : Obj} : getObj s i = .ok a ↔ s.pool[i]? = some a := by
+  unfold getObj
+  cases h : s.pool[i]? <;> simp
+
+/-- the gradients of the Storage that `remove_link` deletes are unregistered, those of no other -/
+theorem grad_after_free {s : St} {σ : Nat} {r : Sto} (hg : s.gradReg = gradSum s.heap) (hr : s.heap[σ]? = some r)
+    (hf : r.freed = false) :
+    (if r.active then s.gradReg - r.size else s.gradReg) = gradSum (s.heap.set σ { r with nLinks := 0, freed := true }) := by
+  have := gradSum_set (r' := { r with nLinks := 0, freed := true }) hr
+  cases hact : r.active <;> simp [gradOf, hf, hact] at this ⊢ <;> omega
 
 /-- `if (storage_) { storage_->remove_link(); storage_ = 0; }` never faults under the invariant, and keeps it -/
 theorem releaseAt_spec {s s' : St} {i : Nat} (I : Inv s) (h : releaseAt s i = .ok s') :
@@ -438,61 +530,157 @@ theorem releaseAt_spec {s s' : St} {i : Nat} (I : Inv s) (h : releaseAt s i = .o
       rw [dropSto_of_none has, list_set_same ha]
     | some σ =>
       simp only [has] at h
-      obtain ⟨r, hr, hf, hpos, h0, h1⟩ := invC_release I ha has
+      obtain ⟨r, hr, hf, hpos, h0, h1⟩ := invC_release I.core ha has
       have hne : r.nLinks ≠ 0 := by omega
       unfold removeLink at h
       simp only [hr, hf, hne] at h
       by_cases hz : r.nLinks - 1 = 0
       · simp [hz] at h
         subst h
-        refine ⟨h0 hz, a, rfl, rfl, by simp [setObj], rfl, rfl, ?_⟩
+        refine ⟨⟨h0 hz, grad_after_free I.grad hr hf⟩, a, rfl, rfl, by simp [setObj], rfl, rfl, ?_⟩
         intro τ r' hr' hne'
         have : σ ≠ τ := fun e => hne' (by rw [← e]; exact has)
         simp [setObj, getElem?_set_ne' this, hr']
       · simp [hz] at h
         subst h
-        refine ⟨h1 hz, a, rfl, rfl, by simp [setObj], rfl, rfl, ?_⟩
-        intro τ r' hr' hne'
-        have : σ ≠ τ := fun e => hne' (by rw [← e]; exact has)
-        simp [setObj, getElem?_set_ne' this, hr']
+        refine ⟨⟨h1 hz, ?_⟩, a, rfl, rfl, by simp [setObj], rfl, rfl, ?_⟩
+        · have hg := I.grad
+          have := gradSum_set_same (r' := { nLinks := r.nLinks - 1, freed := false, size := r.size, active := r.active }) hr (by simp [gradOf, hf])
+          simp only [setObj]; rw [this]; exact hg
+        · intro τ r' hr' hne'
+          have : σ ≠ τ := fun e => hne' (by rw [← e]; exact has)
+          simp [setObj, getElem?_set_ne' this, hr']
 
 theorem clearAt_spec {s s' : St} {i : Nat} (I : Inv s) (h : clearAt s i = .ok s') :
-    Inv s' ∧ ∃ a, s.pool[i]? = some a ∧ s'.pool = s.pool.set i {} ∧ s'.heap.length = s.heap.length ∧
+    Inv s' ∧ ∃ a, s.pool[i]? = some a ∧ s'.pool = s.pool.set i (blank a.kind) ∧ s'.heap.length = s.heap.length ∧
       s'.smem = s.smem ∧ s'.exts = s.exts := by
   unfold clearAt at h
-  cases hr : releaseAt s i with
-  | error e => simp [hr] at h
-  | ok s1 =>
-    simp only [hr] at h
-    cases h
-    obtain ⟨I1, a, ha, hp, hl, hm, he, _⟩ := releaseAt_spec I hr
-    have hi : s1.pool[i]? = some (dropSto a) := by rw [hp]; exact getElem?_set_self' ha
-    refine ⟨?_, a, ha, ?_, hl, hm, he⟩
-    · exact invC_set_none I1 hi rfl rfl (by intro σ h; cases h)
-    · simp [setObj, hp]
+  cases hg : getObj s i with
+  | error e => simp [hg] at h
+  | ok a0 =>
+    simp only [hg] at h
+    cases hr : releaseAt s i with
+    | error e => simp [hr] at h
+    | ok s1 =>
+      simp only [hr] at h
+      cases h
+      obtain ⟨I1, a, ha, hp, hl, hm, he, _⟩ := releaseAt_spec I hr
+      have e0 : a0 = a := by
+        have := getObj_ok.mp hg; rw [ha] at this; cases this; rfl
+      subst e0
+      have hi : s1.pool[i]? = some (dropSto a0) := by rw [hp]; exact getElem?_set_self' ha
+      refine ⟨⟨?_, I1.grad⟩, a0, ha, ?_, hl, hm, he⟩
+      · exact invC_set_none I1.core hi rfl rfl (by intro σ h; simp [blank] at h)
+      · simp [setObj, hp]
 
-theorem resizeAt_inv {s s' : St} {i : Nat} {n v0 : Int} (I : Inv s) (h : resizeAt s i n v0 = .ok s') : Inv s' := by
+theorem fillOwner_frame (s : St) (o : Obj) (v0 : Int) :
+    (fillOwner s o v0).heap = s.heap ∧ (fillOwner s o v0).pool = s.pool ∧ (fillOwner s o v0).created = s.created ∧
+    (fillOwner s o v0).deleted = s.deleted ∧ (fillOwner s o v0).gradReg = s.gradReg ∧
+    (fillOwner s o v0).exts = s.exts := by
+  unfold fillOwner
+  split
+  · exact ⟨rfl, rfl, rfl, rfl, rfl, rfl⟩
+  · split <;> exact ⟨rfl, rfl, rfl, rfl, rfl, rfl⟩
+
+theorem allocTick_frame (s : St) :
+    (allocTick s).1.heap = s.heap ∧ (allocTick s).1.pool = s.pool ∧ (allocTick s).1.created = s.created ∧
+    (allocTick s).1.deleted = s.deleted ∧ (allocTick s).1.gradReg = s.gradReg ∧ (allocTick s).1.smem = s.smem ∧
+    (allocTick s).1.exts = s.exts := by
+  unfold allocTick
+  split <;> exact ⟨rfl, rfl, rfl, rfl, rfl, rfl, rfl⟩
+
+theorem allocTick_inv {s : St} (I : Inv s) : Inv (allocTick s).1 := by
+  obtain ⟨a1, a2, a3, a4, a5, _⟩ := allocTick_frame s
+  exact inv_of_same I a1 a2 a3 a4 a5
+
+theorem tickIf_inv {s : St} (c : Bool) (I : Inv s) : Inv (if c = true then (allocTick s).1 else s) := by
+  split
+  · exact allocTick_inv I
+  · exact I
+
+theorem tickIf_frame (s : St) (c : Bool) :
+    (if c = true then (allocTick s).1 else s).heap = s.heap ∧ (if c = true then (allocTick s).1 else s).pool = s.pool := by
+  split
+  · exact ⟨(allocTick_frame s).1, (allocTick_frame s).2.1⟩
+  · exact ⟨rfl, rfl⟩
+
+theorem allocTick_failed (s : St) (h : (allocTick s).2 = true) : (allocTick s).1.thrown = true := by
+  unfold allocTick at h ⊢
+  split
+  · rfl
+  · rename_i hne; simp [hne] at h
+
+/-- a failed allocation is reported, a successful one is not -/
+theorem allocTick_thrown (s : St) (h : s.thrown = false) : (allocTick s).1.thrown = (allocTick s).2 := by
+  unfold allocTick
+  split <;> simp [h]
+
+/-- the state `resize` leaves when it allocates: released, a new Storage, the packed owner stored, elements filled -/
+def resized (s1 : St) (i : Nat) (k : Kind) (m0 m1 : Nat) (v0 : Int) : St :=
+  fillOwner (setObj (newStorage s1 (dataVolume k m0 m1) k.active).1 i (ownerOf k s1.heap.length m0 m1))
+    (ownerOf k s1.heap.length m0 m1) v0
+
+/-- the three ways `resize` returns: cleared, allocated, or — its allocation having failed — released and empty -/
+theorem resizeAt_cases {s s' : St} {i : Nat} {strict : Bool} {n0 n1 v0 : Int} (h : resizeAt s i strict n0 n1 v0 = .ok s') :
+    ∃ a, s.pool[i]? = some a ∧
+      ((resizeCheck a.kind strict n0 n1 = .ok none ∧ clearAt s i = .ok s') ∨
+       (∃ m0 m1 s1, resizeCheck a.kind strict n0 n1 = .ok (some (m0, m1)) ∧ releaseAt s i = .ok s1 ∧
+          (allocTick s1).2 = false ∧ s' = resized (allocTick s1).1 i a.kind m0 m1 v0) ∨
+       (∃ m0 m1 s1, resizeCheck a.kind strict n0 n1 = .ok (some (m0, m1)) ∧ releaseAt s i = .ok s1 ∧
+          (allocTick s1).2 = true ∧ s' = setObj (allocTick s1).1 i (blank a.kind))) := by
   unfold resizeAt at h
   cases hg : getObj s i with
   | error e => simp [hg] at h
   | ok a0 =>
     simp only [hg] at h
-    by_cases hneg : n < 0
-    · simp [hneg] at h
-    · simp only [hneg, if_false] at h
-      by_cases hz : n = 0
-      · simp only [hz, if_true] at h
-        exact (clearAt_spec I h).1
-      · simp only [hz, if_false] at h
+    refine ⟨a0, getObj_ok.mp hg, ?_⟩
+    cases hc : resizeCheck a0.kind strict n0 n1 with
+    | error e => simp [hc] at h
+    | ok r =>
+      cases r with
+      | none => simp only [hc] at h; exact Or.inl ⟨rfl, h⟩
+      | some pr =>
+        obtain ⟨m0, m1⟩ := pr
+        simp only [hc] at h
         cases hr : releaseAt s i with
         | error e => simp [hr] at h
         | ok s1 =>
           simp only [hr] at h
-          cases h
-          obtain ⟨I1, a, ha, hp, _⟩ := releaseAt_spec I hr
-          have hi : s1.pool[i]? = some (dropSto a) := by rw [hp]; exact getElem?_set_self' ha
-          have hn : 0 < n.toNat := by omega
-          exact invC_alloc_set I1 hi rfl hn
+          cases ht : (allocTick s1).2 with
+          | true => simp only [ht, if_true] at h; cases h; exact Or.inr (Or.inr ⟨m0, m1, s1, rfl, rfl, ht, rfl⟩)
+          | false =>
+            simp only [ht] at h
+            cases h
+            exact Or.inr (Or.inl ⟨m0, m1, s1, rfl, rfl, ht, rfl⟩)
+
+theorem resized_inv {s1 : St} {i : Nat} {a : Obj} (I1 : Inv s1) (hi : s1.pool[i]? = some a) (has : a.storage = none)
+    (k : Kind) (m0 m1 : Nat) (v0 : Int) : Inv (resized s1 i k m0 m1 v0) := by
+  obtain ⟨f1, f2, f3, f4, f5, _⟩ :=
+    fillOwner_frame (setObj (newStorage s1 (dataVolume k m0 m1) k.active).1 i (ownerOf k s1.heap.length m0 m1))
+      (ownerOf k s1.heap.length m0 m1) v0
+  unfold resized
+  refine ⟨?_, ?_⟩
+  · rw [f1, f2, f3, f4]
+    exact invC_alloc_set I1.core hi has (ownerOf_storage ..) (ownerOf_region ..) (ownerOf_inside ..)
+  · rw [f5, f1]
+    have hg := I1.grad
+    simp only [setObj, newStorage, gradSum_append, gradOf]
+    cases k.active <;> simp <;> omega
+
+theorem resizeAt_inv {s s' : St} {i : Nat} {strict : Bool} {n0 n1 v0 : Int} (I : Inv s)
+    (h : resizeAt s i strict n0 n1 v0 = .ok s') : Inv s' := by
+  obtain ⟨a, ha, hc | ⟨m0, m1, s1, _, hr, _, rfl⟩ | ⟨m0, m1, s1, _, hr, _, rfl⟩⟩ := resizeAt_cases h
+  · exact (clearAt_spec I hc.2).1
+  · obtain ⟨I1, a', ha', hp, _⟩ := releaseAt_spec I hr
+    have hi : (allocTick s1).1.pool[i]? = some (dropSto a') := by
+      rw [(allocTick_frame s1).2.1, hp]; exact getElem?_set_self' ha'
+    exact resized_inv (allocTick_inv I1) hi rfl _ _ _ _
+  · obtain ⟨I1, a', ha', hp, _⟩ := releaseAt_spec I hr
+    rw [ha] at ha'; cases ha'
+    have I2 := allocTick_inv I1
+    have hi : (allocTick s1).1.pool[i]? = some (dropSto a) := by
+      rw [(allocTick_frame s1).2.1, hp]; exact getElem?_set_self' ha
+    exact ⟨invC_set_none I2.core hi rfl rfl (by intro σ h; simp [blank] at h), I2.grad⟩
 
 theorem destroyAt_inv {s s' : St} {i : Nat} (I : Inv s) (h : destroyAt s i = .ok s') : Inv s' := by
   unfold destroyAt at h
@@ -503,24 +691,83 @@ theorem destroyAt_inv {s s' : St} {i : Nat} (I : Inv s) (h : destroyAt s i = .ok
     cases h
     obtain ⟨I1, a, ha, hp, _⟩ := releaseAt_spec I hr
     have hi : s1.pool[i]? = some (dropSto a) := by rw [hp]; exact getElem?_set_self' ha
-    exact invC_erase_none I1 hi rfl
+    exact ⟨invC_erase_none I1.core hi rfl, I1.grad⟩
 
 theorem push_inv {s : St} (I : Inv s) {o : Obj} (ho : o.storage = none) (hs : ∀ σ, o.region = .sto σ → σ < s.heap.length) :
-    Inv (push s o) := invC_push I ho hs
+    Inv (push s o) := ⟨invC_push I.core ho hs, I.grad⟩
 
-theorem newAt_inv {s s' : St} {n v0 : Int} (I : Inv s) (h : newAt s n v0 = .ok s') : Inv s' := by
+theorem push_blank_inv {s : St} (I : Inv s) (k : Kind) : Inv (push s (blank k)) :=
+  push_inv I rfl (by intro σ h; simp [blank] at h)
+
+theorem removeLink_thrown {s s' : St} {σ : Nat} (h : removeLink s σ = .ok s') : s'.thrown = s.thrown := by
+  unfold removeLink at h
+  repeat' split at h
+  all_goals first | (cases h; rfl) | cases h
+
+theorem releaseAt_thrown {s s' : St} {i : Nat} (h : releaseAt s i = .ok s') : s'.thrown = s.thrown := by
+  unfold releaseAt at h
+  split at h
+  · cases h
+  · split at h
+    · cases h; rfl
+    · split at h
+      · cases h
+      · rename_i s1 hr
+        cases h
+        exact (removeLink_thrown hr : s1.thrown = s.thrown)
+
+theorem resized_thrown (s1 : St) (i : Nat) (k : Kind) (m0 m1 : Nat) (v0 : Int) :
+    (resized s1 i k m0 m1 v0).thrown = s1.thrown := by
+  unfold resized fillOwner
+  split
+  · rfl
+  · split <;> rfl
+
+/-- a constructor whose allocation failed: the object that was being built (it holds nothing) is gone -/
+theorem erase_thrown_inv {s0 s1 : St} {i : Nat} {strict : Bool} {n0 n1 v0 : Int} (I0 : Inv s0)
+    (h : resizeAt s0 i strict n0 n1 v0 = .ok s1) (ht : s1.thrown = true) (h0 : s0.thrown = false) :
+    Inv { s1 with pool := s1.pool.eraseIdx i } := by
+  have I1 := resizeAt_inv I0 h
+  obtain ⟨a, ha, hc | ⟨m0, m1, s2, _, hr, hf, rfl⟩ | ⟨m0, m1, s2, _, hr, _, rfl⟩⟩ := resizeAt_cases h
+  · -- cleared: the object is blank
+    obtain ⟨_, a', ha', hp, _⟩ := clearAt_spec I0 hc.2
+    have hi : s1.pool[i]? = some (blank a'.kind) := by rw [hp]; exact getElem?_set_self' ha'
+    exact ⟨invC_erase_none I1.core hi rfl, I1.grad⟩
+  · -- allocated: then nothing was thrown
+    exfalso
+    rw [resized_thrown, allocTick_thrown s2 (by rw [releaseAt_thrown hr]; exact h0), hf] at ht
+    cases ht
+  · have hi : (setObj (allocTick s2).1 i (blank a.kind)).pool[i]? = some (blank a.kind) := by
+      obtain ⟨_, a', ha', hp, _⟩ := releaseAt_spec I0 hr
+      simp only [setObj]
+      rw [(allocTick_frame s2).2.1, hp]
+      exact getElem?_set_self' (getElem?_set_self' ha')
+    exact ⟨invC_erase_none I1.core hi rfl, I1.grad⟩
+
+theorem newAt_inv {s s' : St} {k : Kind} {n0 n1 v0 : Int} (I : Inv s) (hs : s.thrown = false)
+    (h : newAt s k n0 n1 v0 = .ok s') : Inv s' := by
   unfold newAt at h
-  exact resizeAt_inv (push_inv I rfl (by intro σ h; cases h)) h
+  cases hr : resizeAt (push s (blank k)) s.pool.length (!k.isArray) n0 n1 v0 with
+  | error e => simp [hr] at h
+  | ok s1 =>
+    simp only [hr] at h
+    split at h
+    · rename_i ht
+      cases h
+      exact erase_thrown_inv (push_blank_inv I k) hr ht hs
+    · cases h; exact resizeAt_inv (push_blank_inv I k) hr
 
-theorem newExternalAt_inv {s s' : St} {x off n : Nat} (I : Inv s) (h : newExternalAt s x off n = .ok s') : Inv s' := by
+theorem newExternalAt_inv {s s' : St} {x off : Nat} {n : Int} (I : Inv s) (h : newExternalAt s x off n = .ok s') : Inv s' := by
   unfold newExternalAt at h
   cases he : s.exts[x]? with
   | none => simp [he] at h
   | some e =>
     simp only [he] at h
     split at h
-    · cases h; exact push_inv I rfl (by intro σ h; cases h)
     · cases h
+    · split at h
+      · cases h; exact push_inv I rfl (by intro σ h; cases h)
+      · cases h
 
 /-- `add_link` + append of an object that fits -/
 theorem linkNew_inv {s s' : St} {o : Obj} (I : Inv s) (F : Fits s o) (h : linkNew s o = .ok s') : Inv s' := by
@@ -535,7 +782,10 @@ theorem linkNew_inv {s s' : St} {o : Obj} (I : Inv s) (F : Fits s o) (h : linkNe
     unfold addLink at h
     simp only [hr, hf] at h
     simp at h; subst h
-    exact invC_link_push I hr hf ho hreg hin
+    refine ⟨invC_link_push I.core hr hf ho hreg hin, ?_⟩
+    have := gradSum_set_same (r' := bump r) hr (gradOf_bump hf)
+    simp only [push]
+    exact I.grad.trans this.symm
 
 theorem copyCtorAt_inv {s s' : St} {j : Nat} (I : Inv s) (h : copyCtorAt s j = .ok s') : Inv s' := by
   unfold copyCtorAt getObj at h
@@ -553,47 +803,55 @@ theorem softLinkAt_inv {s s' : St} {j : Nat} (I : Inv s) (h : softLinkAt s j = .
     simp only [hb] at h; cases h
     exact push_inv I rfl (I.inScope b (List.mem_of_getElem? hb))
 
-/-- a slice that stays within its source stays within the source's allocation -/
-theorem inside_slice {b : Obj} {size lo n st : Nat}
-    (hb : Inside b size) (hg : (n = 0 ∧ lo < b.len) ∨ (0 < n ∧ lo + (n - 1) * st < b.len)) :
-    Inside { region := b.region, off := b.off + lo * b.stride, storage := b.storage, len := n, stride := st * b.stride } size := by
-  have key : ∀ m, m < b.len → b.off + m * b.stride < size := by
-    intro m hm
-    have h1 := hb.2 (by omega)
-    have : m * b.stride ≤ (b.len - 1) * b.stride := Nat.mul_le_mul_right _ (by omega)
-    omega
-  constructor
-  · intro h0
-    simp at h0
-    rcases hg with ⟨_, hlo⟩ | ⟨hn, _⟩
-    · have := key lo hlo; simp; omega
-    · omega
-  · intro hpos
-    simp at hpos
-    rcases hg with ⟨hn, _⟩ | ⟨_, hlt⟩
-    · omega
-    · have := key _ hlt
-      have e : (lo + (n - 1) * st) * b.stride = lo * b.stride + (n - 1) * (st * b.stride) := by
-        rw [Nat.add_mul, Nat.mul_assoc]
-      simp; omega
+/-- the object the view constructor builds from its source `b` -/
+def viewObj (b : Obj) (v : ViewSpec) : Obj :=
+  { kind := v.kind, region := b.region, off := b.off + v.delta.toNat, storage := b.storage,
+    len := v.d0.toNat, stride := v.s0.toNat, len1 := v.d1.toNat, stride1 := v.s1.toNat }
 
-theorem sliceAt_inv {s s' : St} {j lo hi st : Nat} (I : Inv s) (h : sliceAt s j lo hi st = .ok s') : Inv s' := by
-  unfold sliceAt getObj at h
+/-- a view constructor that completes has appended `viewObj b v` through `linkNew`, and that view lies inside
+    the extent of its source -/
+theorem viewCtor_ok {s s' : St} {b : Obj} {v : ViewSpec} (h : viewCtor s b v = .ok s') :
+    linkNew s (viewObj b v) = .ok s' ∧ v.delta.toNat + extentOf (viewObj b v) ≤ extentOf b := by
+  unfold viewCtor at h
+  split at h
+  · cases h
+  · split at h
+    · cases h
+    · split at h
+      · cases h
+      · simp only at h
+        split at h
+        · rename_i hc
+          exact ⟨h, hc⟩
+        · cases h
+
+/-- a view that stays within the extent of its source stays within the source's allocation -/
+theorem fits_view {s : St} (I : Inv s) {b : Obj} (hm : b ∈ s.pool) {v : ViewSpec}
+    (hc : v.delta.toNat + extentOf (viewObj b v) ≤ extentOf b) : Fits s (viewObj b v) := by
+  refine ⟨?_, ?_⟩
+  · intro σ hσ; exact I.inScope b hm σ hσ
+  · intro σ hσ
+    obtain ⟨r, hr, hf, hreg, hin⟩ := I.objs b hm σ hσ
+    refine ⟨r, hr, hf, hreg, ?_⟩
+    unfold Inside at hin ⊢
+    have : (viewObj b v).off = b.off + v.delta.toNat := rfl
+    omega
+
+theorem viewAt_inv {s s' : St} {j : Nat} {f : ViewFn} (I : Inv s) (h : viewAt s j f = .ok s') : Inv s' := by
+  unfold viewAt getObj at h
   cases hb : s.pool[j]? with
   | none => simp [hb] at h
   | some b =>
     simp only [hb] at h
-    split at h
-    · cases h
-    · split at h
-      · rename_i hg
-        have hm := List.mem_of_getElem? hb
-        refine linkNew_inv I ⟨?_, ?_⟩ h
-        · intro σ hσ; exact I.inScope b hm σ hσ
-        · intro σ hσ
-          obtain ⟨r, hr, hf, hreg, hin⟩ := I.objs b hm σ hσ
-          exact ⟨r, hr, hf, hreg, inside_slice hin hg⟩
-      · cases h
+    cases he : evalView b f with
+    | error e => simp [he] at h
+    | ok r =>
+      cases r with
+      | empty k => simp only [he] at h; cases h; exact push_blank_inv I k
+      | ctor v =>
+        simp only [he] at h
+        obtain ⟨h1, hc⟩ := viewCtor_ok h
+        exact linkNew_inv I (fits_view I (List.mem_of_getElem? hb) hc) h1
 
 theorem linkAt_inv {s s' : St} {i j : Nat} (I : Inv s) (h : linkAt s i j = .ok s') : Inv s' := by
   unfold linkAt at h
@@ -606,32 +864,37 @@ theorem linkAt_inv {s s' : St} {i j : Nat} (I : Inv s) (h : linkAt s i j = .ok s
       simp only [hgi, hgj] at h
       split at h
       · cases h
-      · cases hc : clearAt s i with
-        | error e => simp [hc] at h
-        | ok s1 =>
-          simp only [hc] at h
-          obtain ⟨I1, a, ha, hp, _⟩ := clearAt_spec I hc
-          have hi : s1.pool[i]? = some {} := by rw [hp]; exact getElem?_set_self' ha
-          unfold getObj at h
-          cases hb1 : s1.pool[j]? with
-          | none => simp [hb1] at h
-          | some b1 =>
-            simp only [hb1] at h
-            have F := fits_of_mem I1 (List.mem_of_getElem? hb1)
-            cases hs : b1.storage with
-            | none =>
-              simp only [hs] at h; cases h
-              exact invC_set_none I1 hi rfl hs F.scope
-            | some σ =>
-              simp only [hs] at h
-              obtain ⟨r, hr, hf, hreg, hin⟩ := F.held σ hs
-              unfold addLink at h
-              simp only [hr, hf] at h
-              simp at h; subst h
-              exact invC_link_set I1 hi rfl hr hf hs hreg hin
+      · split at h
+        · cases h
+        · cases hc : clearAt s i with
+          | error e => simp [hc] at h
+          | ok s1 =>
+            simp only [hc] at h
+            obtain ⟨I1, a, ha, hp, _⟩ := clearAt_spec I hc
+            have hi : s1.pool[i]? = some (blank a.kind) := by rw [hp]; exact getElem?_set_self' ha
+            unfold getObj at h
+            cases hb1 : s1.pool[j]? with
+            | none => simp [hb1] at h
+            | some b1 =>
+              simp only [hb1] at h
+              have F := fits_of_mem I1 (List.mem_of_getElem? hb1)
+              cases hs : b1.storage with
+              | none =>
+                simp only [hs] at h; cases h
+                exact ⟨invC_set_none I1.core hi rfl hs F.scope, I1.grad⟩
+              | some σ =>
+                simp only [hs] at h
+                obtain ⟨r, hr, hf, hreg, hin⟩ := F.held σ hs
+                unfold addLink at h
+                simp only [hr, hf] at h
+                simp at h; subst h
+                refine ⟨invC_link_set I1.core hi rfl hr hf hs hreg hin, ?_⟩
+                have := gradSum_set_same (r' := bump r) hr (gradOf_bump hf)
+                simp only [setObj]
+                exact I1.grad.trans this.symm
 
 theorem writeCell_frame {s s' : St} {r : Region} {c : Nat} {v : Int} (h : writeCell s r c v = .ok s') :
-    s'.heap = s.heap ∧ s'.pool = s.pool ∧ s'.created = s.created ∧ s'.deleted = s.deleted := by
+    s'.heap = s.heap ∧ s'.pool = s.pool ∧ s'.created = s.created ∧ s'.deleted = s.deleted ∧ s'.gradReg = s.gradReg := by
   unfold writeCell at h
   split at h
   · cases h
@@ -639,30 +902,33 @@ theorem writeCell_frame {s s' : St} {r : Region} {c : Nat} {v : Int} (h : writeC
     · split at h
       · cases h
       · split at h
-        · cases h; exact ⟨rfl, rfl, rfl, rfl⟩
+        · cases h; exact ⟨rfl, rfl, rfl, rfl, rfl⟩
         · cases h
     · cases h
   · split at h
     · split at h
-      · cases h; exact ⟨rfl, rfl, rfl, rfl⟩
+      · cases h; exact ⟨rfl, rfl, rfl, rfl, rfl⟩
       · cases h
     · cases h
 
-theorem writeFrom_frame {o : Obj} : ∀ (vs : List Int) (s s' : St) (k : Nat), writeFrom s o k vs = .ok s' →
-    s'.heap = s.heap ∧ s'.pool = s.pool ∧ s'.created = s.created ∧ s'.deleted = s.deleted := by
-  intro vs
-  induction vs with
-  | nil => intro s s' k h; simp [writeFrom] at h; subst h; exact ⟨rfl, rfl, rfl, rfl⟩
-  | cons v vs ih =>
-    intro s s' k h
-    unfold writeFrom at h
-    cases hw : writeCell s o.region (cellOf o k) v with
-    | error e => simp [hw] at h
-    | ok s1 =>
-      simp only [hw] at h
-      obtain ⟨a1, a2, a3, a4⟩ := writeCell_frame hw
-      obtain ⟨b1, b2, b3, b4⟩ := ih s1 s' (k + 1) h
-      exact ⟨b1.trans a1, b2.trans a2, b3.trans a3, b4.trans a4⟩
+theorem writeCells_frame {r : Region} : ∀ (cs : List Nat) (vs : List Int) (s s' : St), writeCells s r cs vs = .ok s' →
+    s'.heap = s.heap ∧ s'.pool = s.pool ∧ s'.created = s.created ∧ s'.deleted = s.deleted ∧ s'.gradReg = s.gradReg := by
+  intro cs
+  induction cs with
+  | nil => intro vs s s' h; simp [writeCells] at h; subst h; exact ⟨rfl, rfl, rfl, rfl, rfl⟩
+  | cons c cs ih =>
+    intro vs s s' h
+    cases vs with
+    | nil => simp [writeCells] at h; subst h; exact ⟨rfl, rfl, rfl, rfl, rfl⟩
+    | cons v vs =>
+      unfold writeCells at h
+      cases hw : writeCell s r c v with
+      | error e => simp [hw] at h
+      | ok s1 =>
+        simp only [hw] at h
+        obtain ⟨a1, a2, a3, a4, a5⟩ := writeCell_frame hw
+        obtain ⟨b1, b2, b3, b4, b5⟩ := ih vs s1 s' h
+        exact ⟨b1.trans a1, b2.trans a2, b3.trans a3, b4.trans a4, b5.trans a5⟩
 
 theorem assignCopyAt_inv {s s' : St} {i j : Nat} (I : Inv s) (h : assignCopyAt s i j = .ok s') : Inv s' := by
   unfold assignCopyAt at h
@@ -675,22 +941,31 @@ theorem assignCopyAt_inv {s s' : St} {i j : Nat} (I : Inv s) (h : assignCopyAt s
       simp only [hgi, hgj] at h
       split at h
       · cases h
-      · rename_i s1 hs1
-        have I1 : Inv s1 := by
-          split at hs1
-          · exact resizeAt_inv I hs1
-          · split at hs1
-            · cases hs1
-            · cases hs1; exact I
-        split at h
+      · split at h
         · cases h
-        · cases h
-        · split at h
-          · cases h; exact I1
+        · rename_i s1 hs1
+          have I1 : Inv s1 := by
+            split at hs1
+            · exact resizeAt_inv I hs1
+            · split at hs1
+              · cases hs1
+              · cases hs1; exact I
+          split at h
+          · cases h
+          · cases h
           · split at h
-            · cases h
-            · obtain ⟨a1, a2, a3, a4⟩ := writeFrom_frame _ _ _ _ h
-              exact inv_of_same I1 a1 a2 a3 a4
+            · cases h; exact I1
+            · split at h
+              · cases h; exact I1
+              · split at h
+                · cases h; exact allocTick_inv I1
+                · split at h
+                  · cases h
+                  · obtain ⟨a1, a2, a3, a4, a5⟩ := writeCells_frame _ _ _ _ h
+                    exact inv_of_same (tickIf_inv _ I1) a1 a2 a3 a4 a5
+
+theorem swapObjs_inv {s : St} {i j : Nat} {a b : Obj} (I : Inv s) (ha : s.pool[i]? = some a) (hb : s.pool[j]? = some b) :
+    Inv (swapObjs s i j a b) := ⟨invC_swap I.core ha hb, I.grad⟩
 
 theorem assignMoveAt_inv {s s' : St} {i j : Nat} (I : Inv s) (h : assignMoveAt s i j = .ok s') : Inv s' := by
   unfold assignMoveAt at h
@@ -701,23 +976,64 @@ theorem assignMoveAt_inv {s s' : St} {i j : Nat} (I : Inv s) (h : assignMoveAt s
     | error e => simp [hgi, hgj] at h
     | ok b =>
       simp only [hgi, hgj] at h
-      have ha : s.pool[i]? = some a := by
-        unfold getObj at hgi; split at hgi
-        · cases hgi; assumption
-        · cases hgi
-      have hb : s.pool[j]? = some b := by
-        unfold getObj at hgj; split at hgj
-        · cases hgj; assumption
-        · cases hgj
+      have ha := getObj_ok.mp hgi
+      have hb := getObj_ok.mp hgj
       split at h
       · cases h
-      · exact assignCopyAt_inv I h
       · split at h
-        · cases h
         · exact assignCopyAt_inv I h
         · split at h
-          · cases h; exact invC_swap I ha hb
           · cases h
+          · exact assignCopyAt_inv I h
+          · split at h
+            · cases h
+            · exact assignCopyAt_inv I h
+            · split at h
+              · cases h; exact swapObjs_inv I ha hb
+              · cases h
+
+theorem swapAt_inv {s s' : St} {i j : Nat} (I : Inv s) (h : swapAt s i j = .ok s') : Inv s' := by
+  unfold swapAt at h
+  cases hgi : getObj s i with
+  | error e => simp [hgi] at h
+  | ok a =>
+    cases hgj : getObj s j with
+    | error e => simp [hgi, hgj] at h
+    | ok b =>
+      simp only [hgi, hgj] at h
+      split at h
+      · cases h
+      · cases h; exact swapObjs_inv I (getObj_ok.mp hgi) (getObj_ok.mp hgj)
+
+theorem newSumAt_inv {s s' : St} {j1 j2 : Nat} (I : Inv s) (hs : s.thrown = false)
+    (h : newSumAt s j1 j2 = .ok s') : Inv s' := by
+  unfold newSumAt at h
+  cases hg1 : getObj s j1 with
+  | error e => simp [hg1] at h
+  | ok b =>
+    cases hg2 : getObj s j2 with
+    | error e => simp [hg1, hg2] at h
+    | ok c =>
+      simp only [hg1, hg2] at h
+      split at h
+      · cases h
+      · split at h
+        · cases h
+        · split at h
+          · cases h
+          · cases h
+          · split at h
+            · cases h
+            · rename_i s1 hs1
+              have I1 : Inv s1 := resizeAt_inv (push_blank_inv I b.kind) hs1
+              split at h
+              · rename_i ht
+                cases h
+                exact erase_thrown_inv (push_blank_inv I b.kind) hs1 ht hs
+              · split at h
+                · cases h
+                · obtain ⟨a1, a2, a3, a4, a5⟩ := writeCells_frame _ _ _ _ h
+                  exact inv_of_same I1 a1 a2 a3 a4 a5
 
 theorem writeAt_inv {s s' : St} {i k : Nat} {v : Int} (I : Inv s) (h : writeAt s i k v = .ok s') : Inv s' := by
   unfold writeAt at h
@@ -726,8 +1042,8 @@ theorem writeAt_inv {s s' : St} {i k : Nat} {v : Int} (I : Inv s) (h : writeAt s
   | ok a =>
     simp only [hg] at h
     split at h
-    · obtain ⟨a1, a2, a3, a4⟩ := writeCell_frame h
-      exact inv_of_same I a1 a2 a3 a4
+    · obtain ⟨a1, a2, a3, a4, a5⟩ := writeCell_frame h
+      exact inv_of_same I a1 a2 a3 a4 a5
     · cases h
 
 theorem xwriteAt_inv {s s' : St} {x k : Nat} {v : Int} (I : Inv s) (h : xwriteAt s x k v = .ok s') : Inv s' := by
@@ -735,7 +1051,7 @@ theorem xwriteAt_inv {s s' : St} {x k : Nat} {v : Int} (I : Inv s) (h : xwriteAt
   split at h
   · cases h
   · split at h
-    · cases h; exact I
+    · cases h; exact ⟨I.core, I.grad⟩
     · cases h
 
 theorem xendAt_inv {s s' : St} {x : Nat} (I : Inv s) (h : xendAt s x = .ok s') : Inv s' := by
@@ -743,28 +1059,35 @@ theorem xendAt_inv {s s' : St} {x : Nat} (I : Inv s) (h : xendAt s x = .ok s') :
   split at h
   · cases h
   · split at h
-    · cases h; exact I
+    · cases h; exact ⟨I.core, I.grad⟩
     · cases h
 
-/-- every operation that completes preserves the invariant -/
-theorem inv_step {s s' : St} (op : Op) (I : Inv s) (h : step s op = .ok s') : Inv s' := by
+theorem inv_stepCore {s s' : St} (op : Op) (I : Inv s) (hs : s.thrown = false) (h : stepCore s op = .ok s') : Inv s' := by
   cases op with
-  | xnew n v0 => simp [step] at h; subst h; exact I
+  | xnew n v0 => simp [stepCore] at h; subst h; exact ⟨I.core, I.grad⟩
   | xwrite x k v => exact xwriteAt_inv I h
   | xend x => exact xendAt_inv I h
-  | new n v0 => exact newAt_inv I h
-  | newEmpty => simp [step, newEmptyAt] at h; subst h; exact push_inv I rfl (by intro σ h; cases h)
+  | new k n0 n1 v0 => exact newAt_inv I hs h
+  | newEmpty k => simp [stepCore, newEmptyAt] at h; subst h; exact push_blank_inv I k
   | newExternal x off n => exact newExternalAt_inv I h
   | copyCtor j => exact copyCtorAt_inv I h
-  | slice j lo hi st => exact sliceAt_inv I h
+  | view j f => exact viewAt_inv I h
   | softLink j => exact softLinkAt_inv I h
   | link i j => exact linkAt_inv I h
   | assignCopy i j => exact assignCopyAt_inv I h
   | assignMove i j => exact assignMoveAt_inv I h
-  | resize i n v0 => exact resizeAt_inv I h
+  | resize i strict n0 n1 v0 => exact resizeAt_inv I h
   | clear i => exact (clearAt_spec I h).1
   | destroy i => exact destroyAt_inv I h
   | write i k v => exact writeAt_inv I h
+  | swap i j => exact swapAt_inv I h
+  | newSum j1 j2 => exact newSumAt_inv I hs h
+  | failNext k => simp [stepCore] at h; subst h; exact ⟨I.core, I.grad⟩
+
+/-- every operation that returns — normally, or by throwing `std::bad_alloc` out of a failed allocation — preserves
+    the invariant -/
+theorem inv_step {s s' : St} (op : Op) (I : Inv s) (h : step s op = .ok s') : Inv s' :=
+  inv_stepCore op (s := { s with thrown := false }) ⟨I.core, I.grad⟩ rfl h
 
 theorem inv_stepOrStay {s : St} (op : Op) (I : Inv s) : Inv (stepOrStay s op) := by
   unfold stepOrStay
@@ -784,17 +1107,20 @@ theorem freed_is_final {s : St} {σ : Nat} {r : Sto} (hr : s.heap[σ]? = some r)
     removeLink s σ = .error .fault ∧ addLink s σ = .error .fault ∧ nLinksOf s σ = .error .fault := by
   simp [removeLink, addLink, nLinksOf, hr, hf]
 
-/-- `remove_link` at zero links throws `invalid_operation` and changes nothing -/
+/-- `remove_link` at zero links throws and changes nothing -/
 theorem removeLink_at_zero {s : St} {σ : Nat} {r : Sto} (hr : s.heap[σ]? = some r) (hf : r.freed = false)
-    (h0 : r.nLinks = 0) : removeLink s σ = .error .invalidOperation := by
+    (h0 : r.nLinks = 0) : removeLink s σ = .error .linkUnderflow := by
   simp [removeLink, hr, hf, h0]
 
-/-- `remove_link` deletes exactly when it takes the last link, and counts the deletion once -/
+/-- `remove_link` deletes exactly when it takes the last link, counts the deletion once, and exactly then (and only
+    for an active Storage) its gradients are unregistered -/
 theorem removeLink_deletes_iff {s s' : St} {σ : Nat} {r : Sto} (hr : s.heap[σ]? = some r)
     (h : removeLink s σ = .ok s') :
     r.freed = false ∧ 0 < r.nLinks ∧
-    ((r.nLinks = 1 ∧ s'.heap[σ]? = some { nLinks := 0, freed := true, size := r.size } ∧ s'.deleted = s.deleted + 1) ∨
-     (1 < r.nLinks ∧ s'.heap[σ]? = some { nLinks := r.nLinks - 1, freed := false, size := r.size } ∧ s'.deleted = s.deleted)) := by
+    ((r.nLinks = 1 ∧ s'.heap[σ]? = some { nLinks := 0, freed := true, size := r.size, active := r.active } ∧
+        s'.deleted = s.deleted + 1 ∧ s'.gradReg = (if r.active then s.gradReg - r.size else s.gradReg)) ∨
+     (1 < r.nLinks ∧ s'.heap[σ]? = some { nLinks := r.nLinks - 1, freed := false, size := r.size, active := r.active } ∧
+        s'.deleted = s.deleted ∧ s'.gradReg = s.gradReg)) := by
   unfold removeLink at h
   simp only [hr] at h
   cases hf : r.freed with
@@ -806,10 +1132,10 @@ theorem removeLink_deletes_iff {s s' : St} {σ : Nat} {r : Sto} (hr : s.heap[σ]
     · simp only [h0, if_false] at h
       by_cases h1 : r.nLinks - 1 = 0
       · simp [h1] at h; subst h
-        refine ⟨rfl, by omega, Or.inl ⟨by omega, ?_, rfl⟩⟩
+        refine ⟨rfl, by omega, Or.inl ⟨by omega, ?_, rfl, rfl⟩⟩
         exact getElem?_set_self' hr
       · simp [h1] at h; subst h
-        refine ⟨rfl, by omega, Or.inr ⟨by omega, ?_, rfl⟩⟩
+        refine ⟨rfl, by omega, Or.inr ⟨by omega, ?_, rfl, rfl⟩⟩
         exact getElem?_set_self' hr
 
 /-- under the invariant `n_storage_objects()` is the number of Storage objects not yet deleted -/
@@ -823,9 +1149,20 @@ theorem nStorageObjects_eq {s : St} (I : Inv s) :
   unfold nStorageObjects
   omega
 
-/-- empty pool ⇒ every Storage ever created has been deleted ⇒ created − deleted = 0 -/
+theorem gradSum_all_freed : ∀ (h : List Sto), (∀ r, r ∈ h → r.freed = true) → gradSum h = 0 := by
+  intro h
+  induction h with
+  | nil => intro _; rfl
+  | cons r h ih =>
+    intro hall
+    have h1 : gradOf r = 0 := by simp [gradOf, hall r (by simp)]
+    have h2 := ih (fun r' hm => hall r' (by simp [hm]))
+    simp only [gradSum, List.map_cons, List.sum_cons] at h2 ⊢
+    omega
+
+/-- empty pool ⇒ every Storage ever created has been deleted ⇒ created − deleted = 0, no gradient stays registered -/
 theorem no_leak {s : St} (I : Inv s) (hp : s.pool = []) :
-    (∀ (σ : Nat) (r : Sto), s.heap[σ]? = some r → r.freed = true) ∧ nStorageObjects s = 0 := by
+    (∀ (σ : Nat) (r : Sto), s.heap[σ]? = some r → r.freed = true) ∧ nStorageObjects s = 0 ∧ s.gradReg = 0 := by
   have hall : ∀ (σ : Nat) (r : Sto), s.heap[σ]? = some r → r.freed = true := by
     intro σ r hr
     cases hf : r.freed with
@@ -834,22 +1171,19 @@ theorem no_leak {s : St} (I : Inv s) (hp : s.pool = []) :
       have := I.counts σ r hr hf
       rw [hp, refs_nil] at this
       omega
-  refine ⟨hall, ?_⟩
-  have hc : s.heap.countP (fun r => r.freed) = s.heap.length := by
-    apply List.countP_eq_length.mpr
+  have hmem : ∀ r, r ∈ s.heap → r.freed = true := by
     intro r hm
     obtain ⟨σ, hσ⟩ := List.mem_iff_getElem?.mp hm
     exact hall σ r hσ
-  have h1 := I.created
-  have h2 := I.deleted
-  unfold nStorageObjects
-  omega
+  refine ⟨hall, ?_, ?_⟩
+  · have hc : s.heap.countP (fun r => r.freed) = s.heap.length := List.countP_eq_length.mpr hmem
+    have h1 := I.created
+    have h2 := I.deleted
+    unfold nStorageObjects
+    omega
+  · rw [I.grad]; exact gradSum_all_freed _ hmem
 
 /-! ### who shares with whom -/
-
-theorem getObj_ok {s : St} {i : Nat} {a : Obj} : getObj s i = .ok a ↔ s.pool[i]? = some a := by
-  unfold getObj
-  cases h : s.pool[i]? <;> simp
 
 /-- heap after a linking constructor / `link`: the source's Storage gains exactly one link, nothing else moves -/
 def heapLinked (s s' : St) (o : Obj) : Prop :=
@@ -876,7 +1210,7 @@ theorem linkNew_spec {s s' : St} {o : Obj} (h : linkNew s o = .ok s') :
         simp [hf] at h; subst h
         exact ⟨rfl, ⟨r, hr, hf, by simp [push, bump]⟩, rfl, rfl⟩
 
-/-- copy construction: the new object is the source's (data pointer, storage, extent, stride), one link added -/
+/-- copy construction: the new object is the source's (data pointer, storage, extents, strides), one link added -/
 theorem copyCtor_shares {s s' : St} {j : Nat} {b : Obj} (h : copyCtorAt s j = .ok s') (hb : s.pool[j]? = some b) :
     s'.pool = s.pool ++ [b] ∧ heapLinked s s' b := by
   unfold copyCtorAt at h
@@ -884,18 +1218,27 @@ theorem copyCtor_shares {s s' : St} {j : Nat} {b : Obj} (h : copyCtorAt s j = .o
   obtain ⟨h1, h2, _⟩ := linkNew_spec h
   exact ⟨h1, h2⟩
 
-/-- slicing: the new object points into the source's allocation and holds the source's storage, one link added -/
-theorem slice_shares {s s' : St} {j lo hi st : Nat} {b : Obj} (h : sliceAt s j lo hi st = .ok s') (hb : s.pool[j]? = some b) :
-    ∃ o, s'.pool = s.pool ++ [o] ∧ o.region = b.region ∧ o.storage = b.storage ∧ heapLinked s s' o := by
-  unfold sliceAt at h
+/-- every member function that returns a view (slices of any rank, rows, columns, `T()`, `diag_vector`,
+    `submatrix_on_diagonal`, `reshape`, `permute`, of arrays and of special matrices): the new object points into
+    the source's allocation and holds the source's storage, one link added — or the function returned a
+    default-constructed object and nothing changed -/
+theorem view_shares {s s' : St} {j : Nat} {f : ViewFn} {b : Obj} (h : viewAt s j f = .ok s') (hb : s.pool[j]? = some b) :
+    ∃ o, s'.pool = s.pool ++ [o] ∧
+      ((o.region = b.region ∧ o.storage = b.storage ∧ heapLinked s s' o) ∨
+       (o.region = .null ∧ o.storage = none ∧ s'.heap = s.heap)) := by
+  unfold viewAt at h
   rw [getObj_ok.mpr hb] at h
   simp only at h
-  split at h
-  · cases h
-  · split at h
-    · obtain ⟨h1, h2, _⟩ := linkNew_spec h
-      exact ⟨_, h1, rfl, rfl, h2⟩
-    · cases h
+  cases he : evalView b f with
+  | error e => simp [he] at h
+  | ok r =>
+    cases r with
+    | empty k => simp only [he] at h; cases h; exact ⟨blank k, rfl, Or.inr ⟨rfl, rfl, rfl⟩⟩
+    | ctor v =>
+      simp only [he] at h
+      obtain ⟨h1, _⟩ := viewCtor_ok h
+      obtain ⟨p1, p2, _⟩ := linkNew_spec h1
+      exact ⟨viewObj b v, p1, Or.inl ⟨rfl, rfl, p2⟩⟩
 
 /-- soft link: same view, no storage, no count touched -/
 theorem softLink_holds_nothing {s s' : St} {j : Nat} {b : Obj} (h : softLinkAt s j = .ok s') (hb : s.pool[j]? = some b) :
@@ -905,17 +1248,27 @@ theorem softLink_holds_nothing {s s' : St} {j : Nat} {b : Obj} (h : softLinkAt s
   cases h; exact ⟨rfl, rfl, rfl, rfl⟩
 
 /-- array over external memory: no storage, no count touched -/
-theorem newExternal_holds_nothing {s s' : St} {x off n : Nat} (h : newExternalAt s x off n = .ok s') :
-    s'.pool = s.pool ++ [{ region := .ext x, off := off, storage := none, len := n, stride := 1 }] ∧
+theorem newExternal_holds_nothing {s s' : St} {x off : Nat} {n : Int} (h : newExternalAt s x off n = .ok s') :
+    s'.pool = s.pool ++ [{ kind := .vec, region := .ext x, off := off, storage := none, len := n.toNat, stride := 1 }] ∧
     s'.heap = s.heap ∧ s'.created = s.created ∧ s'.deleted = s.deleted := by
   unfold newExternalAt at h
   split at h
   · cases h
   · split at h
-    · cases h; exact ⟨rfl, rfl, rfl, rfl⟩
     · cases h
+    · split at h
+      · cases h; exact ⟨rfl, rfl, rfl, rfl⟩
+      · cases h
 
-/-- `a.link(b)`, a ≠ b: afterwards `a` is `b`'s (data pointer, storage, extent, stride) -/
+theorem addLink_pool {s s' : St} {σ : Nat} (h : addLink s σ = .ok s') : s'.pool = s.pool := by
+  unfold addLink at h
+  split at h
+  · cases h
+  · split at h
+    · cases h
+    · cases h; rfl
+
+/-- `a.link(b)`, a ≠ b: afterwards `a` is `b`'s (data pointer, storage, extents, strides) -/
 theorem link_shares {s s' : St} {i j : Nat} {b : Obj} (I : Inv s) (hij : i ≠ j)
     (h : linkAt s i j = .ok s') (hb : s.pool[j]? = some b) :
     s'.pool = s.pool.set i b ∧ b.region ≠ .null := by
@@ -927,77 +1280,78 @@ theorem link_shares {s s' : St} {i j : Nat} {b : Obj} (I : Inv s) (hij : i ≠ j
     simp only [hgi] at h
     split at h
     · cases h
-    · rename_i hnull
-      cases hc : clearAt s i with
-      | error e => simp [hc] at h
-      | ok s1 =>
-        simp only [hc] at h
-        obtain ⟨_, a, ha, hp, _⟩ := clearAt_spec I hc
-        have hb1 : s1.pool[j]? = some b := by rw [hp, getElem?_set_ne' hij]; exact hb
-        rw [getObj_ok.mpr hb1] at h
-        simp only at h
-        cases hs : b.storage with
-        | none => simp only [hs] at h; cases h; exact ⟨by simp [setObj, hp], hnull⟩
-        | some σ =>
-          simp only [hs] at h
-          cases hadd : addLink s1 σ with
-          | error e => simp [hadd] at h
-          | ok s2 =>
-            simp only [hadd] at h
-            cases h
-            have : s2.pool = s1.pool := by
-              unfold addLink at hadd
-              split at hadd
-              · cases hadd
-              · split at hadd
-                · cases hadd
-                · cases hadd; rfl
-            exact ⟨by simp [setObj, this, hp], hnull⟩
+    · split at h
+      · cases h
+      · rename_i hnull
+        cases hc : clearAt s i with
+        | error e => simp [hc] at h
+        | ok s1 =>
+          simp only [hc] at h
+          obtain ⟨_, a, ha, hp, _⟩ := clearAt_spec I hc
+          have hb1 : s1.pool[j]? = some b := by rw [hp, getElem?_set_ne' hij]; exact hb
+          rw [getObj_ok.mpr hb1] at h
+          simp only at h
+          cases hs : b.storage with
+          | none => simp only [hs] at h; cases h; exact ⟨by simp [setObj, hp], hnull⟩
+          | some σ =>
+            simp only [hs] at h
+            cases hadd : addLink s1 σ with
+            | error e => simp [hadd] at h
+            | ok s2 =>
+              simp only [hadd] at h
+              cases h
+              exact ⟨by simp [setObj, addLink_pool hadd, hp], hnull⟩
 
 /-! ### assignment -/
 
-theorem resizeAt_spec {s s' : St} {i : Nat} {n : Nat} {v0 : Int} (I : Inv s) (h : resizeAt s i (n : Int) v0 = .ok s') :
-    (n = 0 → s'.pool = s.pool.set i {}) ∧
-    (n ≠ 0 → s'.pool = s.pool.set i (ownerOf s.heap.length n) ∧
-             s'.heap[s.heap.length]? = some { nLinks := 1, freed := false, size := n }) := by
-  unfold resizeAt at h
-  cases hg : getObj s i with
-  | error e => simp [hg] at h
-  | ok a0 =>
-    simp only [hg] at h
-    have hneg : ¬ ((n : Int) < 0) := by omega
-    simp only [hneg, if_false] at h
-    by_cases hz : n = 0
-    · subst hz
-      simp only [Int.natCast_zero, if_true] at h
-      obtain ⟨_, a, ha, hp, _⟩ := clearAt_spec I h
-      exact ⟨fun _ => hp, fun hn => absurd rfl hn⟩
-    · have hz' : ¬ ((n : Int) = 0) := by omega
-      simp only [hz', if_false] at h
-      cases hr : releaseAt s i with
-      | error e => simp [hr] at h
-      | ok s1 =>
-        simp only [hr] at h
-        cases h
-        obtain ⟨_, a, ha, hp, hl, _⟩ := releaseAt_spec I hr
-        refine ⟨fun hn => absurd hn hz, fun _ => ⟨?_, ?_⟩⟩
-        · simp [setObj, newStorage, hp, hl, ownerOf]
-        · simp [setObj, newStorage, ← hl]
+/-- where `resize` leaves the object: cleared, the packed owner of a Storage created by this call, or — the
+    allocation having failed — released and empty -/
+theorem resizeAt_spec {s s' : St} {i : Nat} {strict : Bool} {n0 n1 v0 : Int} {a : Obj} (I : Inv s)
+    (ha : s.pool[i]? = some a) (h : resizeAt s i strict n0 n1 v0 = .ok s') :
+    s'.pool = s.pool.set i (blank a.kind) ∨
+    (∃ m0 m1, s'.pool = s.pool.set i (ownerOf a.kind s.heap.length m0 m1) ∧
+       s'.heap[s.heap.length]? =
+         some { nLinks := 1, freed := false, size := dataVolume a.kind m0 m1, active := a.kind.active }) ∨
+    (s'.pool = s.pool.set i (blank a.kind) ∧ s'.thrown = true) := by
+  obtain ⟨a0, ha0, hc | ⟨m0, m1, s1, _, hr, _, rfl⟩ | ⟨m0, m1, s1, _, hr, hf, rfl⟩⟩ := resizeAt_cases h
+  · rw [ha] at ha0; cases ha0
+    obtain ⟨_, a', ha', hp, _⟩ := clearAt_spec I hc.2
+    rw [ha] at ha'; cases ha'
+    exact Or.inl hp
+  · rw [ha] at ha0; cases ha0
+    obtain ⟨_, a', ha', hp, hl, _⟩ := releaseAt_spec I hr
+    obtain ⟨t1, t2, _⟩ := allocTick_frame s1
+    obtain ⟨f1, f2, _⟩ :=
+      fillOwner_frame (setObj (newStorage (allocTick s1).1 (dataVolume a.kind m0 m1) a.kind.active).1 i
+          (ownerOf a.kind (allocTick s1).1.heap.length m0 m1))
+        (ownerOf a.kind (allocTick s1).1.heap.length m0 m1) v0
+    refine Or.inr (Or.inl ⟨m0, m1, ?_, ?_⟩)
+    · unfold resized; rw [f2]; simp [setObj, newStorage, hp, hl, t1, t2]
+    · unfold resized; rw [f1]; simp [setObj, newStorage, ← hl, t1]
+  · rw [ha] at ha0; cases ha0
+    obtain ⟨_, a', ha', hp, hl, _⟩ := releaseAt_spec I hr
+    refine Or.inr (Or.inr ⟨?_, ?_⟩)
+    · simp [setObj, (allocTick_frame s1).2.1, hp]
+    · exact allocTick_failed s1 hf
 
 /-- where the target of `a = b` ends up -/
 inductive Owns (s s' : St) (i j : Nat) (a b : Obj) : Prop
   /-- the values were stored through the target's existing view; no object and no count changed -/
   | inPlace (hlen : a.len ≠ 0) (hp : s'.pool = s.pool) (hh : s'.heap = s.heap)
   /-- empty := empty : the target is the cleared array -/
-  | emptied (ha : a.len = 0) (hp : s'.pool = s.pool.set i {})
+  | emptied (ha : a.len = 0) (hp : s'.pool = s.pool.set i (blank a.kind))
   /-- the target was empty and now owns a Storage created by this assignment -/
-  | fresh (ha : a.len = 0) (hb : b.len ≠ 0) (hp : s'.pool = s.pool.set i (ownerOf s.heap.length b.len))
-      (hh : s'.heap[s.heap.length]? = some { nLinks := 1, freed := false, size := b.len })
+  | fresh (o : Obj) (r : Sto) (ha : a.len = 0) (hp : s'.pool = s.pool.set i o)
+      (hos : o.storage = some s.heap.length) (hor : o.region = .sto s.heap.length)
+      (hh : s'.heap[s.heap.length]? = some r) (hone : r.nLinks = 1) (hfr : r.freed = false)
   /-- move assignment swapped: the source owned an unshared Storage, which the target now holds, and the
       source holds what the target had -/
   | stolen (σ : Nat) (r : Sto) (hb : b.storage = some σ) (hr : s.heap[σ]? = some r) (hone : r.nLinks = 1)
       (hl : a.len = 0 ∨ ∃ τ rt, a.storage = some τ ∧ s.heap[τ]? = some rt ∧ rt.nLinks = 1)
       (hp : s'.pool = (s.pool.set i b).set j a) (hh : s'.heap = s.heap)
+  /-- the statement ended by throwing `std::bad_alloc` out of the `resize` of an empty target: the target is the
+      cleared array -/
+  | failed (ht : s'.thrown = true) (ha : a.len = 0) (hp : s'.pool = s.pool.set i (blank a.kind))
 
 theorem assignCopyAt_owns {s s' : St} {i j : Nat} {a b : Obj} (I : Inv s)
     (ha : s.pool[i]? = some a) (hb : s.pool[j]? = some b)
@@ -1007,36 +1361,40 @@ theorem assignCopyAt_owns {s s' : St} {i j : Nat} {a b : Obj} (I : Inv s)
   simp only at h
   split at h
   · cases h
-  · rename_i s1 hs1
-    by_cases hal : a.len = 0
-    · simp only [hal, if_true] at hs1
-      have I1 := resizeAt_inv I hs1
-      obtain ⟨hz, hnz⟩ := resizeAt_spec I hs1
-      -- the rest only stores values
-      have hrest : s'.pool = s1.pool ∧ s'.heap = s1.heap := by
+  · split at h
+    · cases h
+    · rename_i s1 hs1
+      -- what the rest of the statement does to pool and heap
+      have hrest : s'.pool = s1.pool ∧ s'.heap = s1.heap ∧ (s1.thrown = true → s' = s1) := by
         split at h
         · cases h
         · cases h
         · split at h
-          · cases h; exact ⟨rfl, rfl⟩
-          · split at h
-            · cases h
-            · obtain ⟨a1, a2, _, _⟩ := writeFrom_frame _ _ _ _ h
-              exact ⟨a2, a1⟩
-      by_cases hbl : b.len = 0
-      · exact .emptied hal (by rw [hrest.1]; exact hz hbl)
-      · obtain ⟨h1, h2⟩ := hnz hbl
-        exact .fresh hal hbl (by rw [hrest.1]; exact h1) (by rw [hrest.2]; exact h2)
-    · simp only [hal, if_false] at hs1
-      split at hs1
-      · cases hs1
-      · cases hs1
-        rw [getObj_ok.mpr ha, getObj_ok.mpr hb] at h
-        simp only [hal, if_false] at h
-        split at h
-        · cases h
-        · obtain ⟨a1, a2, _, _⟩ := writeFrom_frame _ _ _ _ h
-          exact .inPlace hal a2 a1
+          · cases h; exact ⟨rfl, rfl, fun _ => rfl⟩
+          · rename_i hnt
+            split at h
+            · cases h; exact ⟨rfl, rfl, fun _ => rfl⟩
+            · split at h
+              · cases h; exact ⟨(allocTick_frame s1).2.1, (allocTick_frame s1).1, fun ht => absurd ht hnt⟩
+              · split at h
+                · cases h
+                · obtain ⟨a1, a2, _⟩ := writeCells_frame _ _ _ _ h
+                  obtain ⟨t1, t2⟩ := tickIf_frame s1 _
+                  exact ⟨a2.trans t2, a1.trans t1, fun ht => absurd ht hnt⟩
+      by_cases hal : a.len = 0
+      · simp only [hal, if_true] at hs1
+        rcases resizeAt_spec I ha hs1 with hp | ⟨m0, m1, hp, hh⟩ | ⟨hp, ht⟩
+        · exact .emptied hal (by rw [hrest.1]; exact hp)
+        · exact .fresh _ _ hal (by rw [hrest.1]; exact hp) (ownerOf_storage ..) (ownerOf_region ..)
+            (by rw [hrest.2.1]; exact hh) rfl rfl
+        · have e := hrest.2.2 ht
+          subst e
+          exact .failed ht hal hp
+      · simp only [hal, if_false] at hs1
+        split at hs1
+        · cases hs1
+        · cases hs1
+          exact .inPlace hal hrest.1 hrest.2.1
 
 theorem ownsUnshared_true {s : St} {o : Obj} (h : ownsUnshared s o = .ok true) :
     ∃ σ r, o.storage = some σ ∧ s.heap[σ]? = some r ∧ r.nLinks = 1 := by
@@ -1066,22 +1424,26 @@ theorem assignMoveAt_owns {s s' : St} {i j : Nat} {a b : Obj} (I : Inv s)
   simp only at h
   split at h
   · cases h
-  · exact assignCopyAt_owns I ha hb h
-  · rename_i hl
-    split at h
-    · cases h
+  · split at h
     · exact assignCopyAt_owns I ha hb h
-    · rename_i hrhs
-      obtain ⟨σ, r, h1, h2, h3⟩ := ownsUnshared_true hrhs
-      split at h
+    · split at h
       · cases h
-        refine .stolen σ r h1 h2 h3 ?_ rfl rfl
-        by_cases hal : a.len = 0
-        · exact Or.inl hal
-        · simp only [hal, if_false] at hl
-          obtain ⟨τ, rt, t1, t2, t3⟩ := ownsUnshared_true hl
-          exact Or.inr ⟨τ, rt, t1, t2, t3⟩
-      · cases h
+      · exact assignCopyAt_owns I ha hb h
+      · rename_i hl
+        split at h
+        · cases h
+        · exact assignCopyAt_owns I ha hb h
+        · rename_i hrhs
+          obtain ⟨σ, r, h1, h2, h3⟩ := ownsUnshared_true hrhs
+          split at h
+          · cases h
+            refine .stolen σ r h1 h2 h3 ?_ rfl rfl
+            by_cases hal : a.len = 0
+            · exact Or.inl hal
+            · simp only [hal, if_false] at hl
+              obtain ⟨τ, rt, t1, t2, t3⟩ := ownsUnshared_true hl
+              exact Or.inr ⟨τ, rt, t1, t2, t3⟩
+          · cases h
 
 /-- two different positions holding σ ⇒ at least two referrers -/
 theorem two_refs {p : List Obj} {i j σ : Nat} {a b : Obj} (hij : i ≠ j) (ha : p[i]? = some a) (hb : p[j]? = some b)
@@ -1098,14 +1460,15 @@ theorem owns_not_external {s s' : St} {i j : Nat} {a b a' : Obj} (I : Inv s) (O 
     (ha' : s'.pool[i]? = some a') {x : Nat} (hx : a'.region = .ext x) : a' = a ∧ a.region = .ext x := by
   cases O with
   | inPlace hlen hp hh => rw [hp, ha] at ha'; cases ha'; exact ⟨rfl, hx⟩
-  | emptied hal hp => rw [hp, getElem?_set_self' ha] at ha'; cases ha'; cases hx
-  | fresh hal hbl hp hh => rw [hp, getElem?_set_self' ha] at ha'; cases ha'; simp [ownerOf] at hx
+  | emptied hal hp => rw [hp, getElem?_set_self' ha] at ha'; cases ha'; simp [blank] at hx
+  | fresh o r hal hp hos hor hh hone hfr => rw [hp, getElem?_set_self' ha] at ha'; cases ha'; rw [hor] at hx; cases hx
   | stolen σ r hbs hr hone hl hp hh =>
     have : ((s.pool.set i b).set j a)[i]? = some b := by
       rw [getElem?_set_ne' (Ne.symm hij)]; exact getElem?_set_self' ha
     rw [hp, this] at ha'; cases ha'
     obtain ⟨_, _, _, hreg, _⟩ := I.objs b (List.mem_of_getElem? hb) σ hbs
     rw [hreg] at hx; cases hx
+  | failed ht hal hp => rw [hp, getElem?_set_self' ha] at ha'; cases ha'; simp [blank] at hx
 
 /-- after the assignment the target and the source look into the same allocation only if they already did and
     the target was written in place -/
@@ -1118,10 +1481,10 @@ theorem owns_apart_from_source {s s' : St} {i j : Nat} {a b a' b' : Obj} (I : In
   | inPlace hlen hp hh =>
     rw [hp, ha] at ha'; rw [hp, hb] at hb'; cases ha'; cases hb'; exact ⟨rfl, rfl, hreg⟩
   | emptied hal hp => rw [hp, getElem?_set_self' ha] at ha'; cases ha'; exact absurd rfl hla
-  | fresh hal hbl hp hh =>
+  | fresh o r hal hp hos hor hh hone hfr =>
     rw [hp, getElem?_set_self' ha] at ha'; cases ha'
     rw [hp, getElem?_set_ne' hij, hb] at hb'; cases hb'
-    have := I.inScope b (List.mem_of_getElem? hb) s.heap.length (by rw [← hreg]; rfl)
+    have := I.inScope b (List.mem_of_getElem? hb) s.heap.length (by rw [← hreg]; exact hor)
     omega
   | stolen σ r hbs hr hone hl hp hh =>
     have e1 : ((s.pool.set i b).set j a)[i]? = some b := by
@@ -1143,6 +1506,7 @@ theorem owns_apart_from_source {s s' : St} {i j : Nat} {a b a' b' : Obj} (I : In
       have := two_refs hij ha hb t1 hbs
       have := (I.counts σ r hr hfb).1
       omega
+  | failed ht hal hp => rw [hp, getElem?_set_self' ha] at ha'; cases ha'; exact absurd rfl hla
 
 /-! ### values: a write shows only through views of the written allocation -/
 
@@ -1157,24 +1521,23 @@ theorem readCell_congr {s s' : St} {r : Region} (c : Nat)
   | sto σ => simp only [hh, hs σ rfl]
   | ext x => simp only [he x rfl]
 
-theorem readFrom_congr {s s' : St} {o : Obj}
+theorem readCells_congr {s s' : St} {r : Region}
     (hh : s'.heap = s.heap)
-    (hs : ∀ σ, o.region = .sto σ → s'.smem[σ]? = s.smem[σ]?)
-    (he : ∀ x, o.region = .ext x → s'.exts[x]? = s.exts[x]?) :
-    ∀ n k, readFrom s' o k n = readFrom s o k n := by
-  intro n
-  induction n with
-  | zero => intro k; rfl
-  | succ n ih =>
-    intro k
-    unfold readFrom
-    rw [readCell_congr _ hh hs he, ih (k + 1)]
+    (hs : ∀ σ, r = .sto σ → s'.smem[σ]? = s.smem[σ]?)
+    (he : ∀ x, r = .ext x → s'.exts[x]? = s.exts[x]?) :
+    ∀ cs, readCells s' r cs = readCells s r cs := by
+  intro cs
+  induction cs with
+  | nil => rfl
+  | cons c cs ih =>
+    unfold readCells
+    rw [readCell_congr _ hh hs he, ih]
 
 theorem readView_congr {s s' : St} {o : Obj}
     (hh : s'.heap = s.heap)
     (hs : ∀ σ, o.region = .sto σ → s'.smem[σ]? = s.smem[σ]?)
     (he : ∀ x, o.region = .ext x → s'.exts[x]? = s.exts[x]?) :
-    readView s' o = readView s o := readFrom_congr hh hs he _ _
+    readView s' o = readView s o := readCells_congr hh hs he _
 
 /-- what a store into allocation `r` leaves alone -/
 theorem writeCell_frame_mem {s s' : St} {r : Region} {c : Nat} {v : Int} (h : writeCell s r c v = .ok s') :
@@ -1238,12 +1601,12 @@ theorem read_after_env {s s' : St} {o : Obj} {x : Nat} (hne : o.region ≠ .ext 
 /-! ### no operation ever touches a deleted Storage or underflows a count -/
 
 /-- the result is a state, a documented array exception, a protocol error or a data access through a stale view
-    (user error): never a touch of a deleted Storage object (`fault`) nor `remove_link` at zero (`invalidOperation`) -/
-def Clean (r : Except Err St) : Prop := r ≠ .error .fault ∧ r ≠ .error .invalidOperation
+    (user error): never a touch of a deleted Storage object (`fault`) nor `remove_link` at zero (`linkUnderflow`) -/
+def Clean (r : Except Err St) : Prop := r ≠ .error .fault ∧ r ≠ .error .linkUnderflow
 
 theorem clean_ok (s : St) : Clean (.ok s) := ⟨(by intro h; cases h), (by intro h; cases h)⟩
 
-theorem clean_err {e : Err} (h1 : e ≠ .fault) (h2 : e ≠ .invalidOperation) : Clean (.error e) :=
+theorem clean_err {e : Err} (h1 : e ≠ .fault) (h2 : e ≠ .linkUnderflow) : Clean (.error e) :=
   ⟨(by intro h; cases h; exact h1 rfl), (by intro h; cases h; exact h2 rfl)⟩
 
 theorem clean_badOp : Clean (.error .badOp) := clean_err (by decide) (by decide)
@@ -1261,7 +1624,7 @@ theorem releaseAt_total {s : St} {i : Nat} {a : Obj} (I : Inv s) (ha : s.pool[i]
   cases has : a.storage with
   | none => exact ⟨s, rfl⟩
   | some σ =>
-    obtain ⟨r, hr, hf, hpos, _, _⟩ := invC_release I ha has
+    obtain ⟨r, hr, hf, hpos, _, _⟩ := invC_release I.core ha has
     have hne : r.nLinks ≠ 0 := by omega
     unfold removeLink
     simp only [hr, hf, hne]
@@ -1272,7 +1635,7 @@ theorem releaseAt_total {s : St} {i : Nat} {a : Obj} (I : Inv s) (ha : s.pool[i]
 theorem clearAt_total {s : St} {i : Nat} {a : Obj} (I : Inv s) (ha : s.pool[i]? = some a) :
     ∃ s', clearAt s i = .ok s' := by
   obtain ⟨s1, h1⟩ := releaseAt_total I ha
-  unfold clearAt; rw [h1]; exact ⟨_, rfl⟩
+  unfold clearAt; rw [getObj_ok.mpr ha]; simp only; rw [h1]; exact ⟨_, rfl⟩
 
 theorem destroyAt_total {s : St} {i : Nat} {a : Obj} (I : Inv s) (ha : s.pool[i]? = some a) :
     ∃ s', destroyAt s i = .ok s' := by
@@ -1285,7 +1648,7 @@ theorem clean_of_total {r : Except Err St} (h : ∃ s', r = .ok s') : Clean r :=
 theorem clearAt_clean {s : St} {i : Nat} (I : Inv s) : Clean (clearAt s i) := by
   cases ha : s.pool[i]? with
   | none =>
-    have : clearAt s i = .error .badOp := by simp [clearAt, releaseAt, getObj, ha]
+    have : clearAt s i = .error .badOp := by simp [clearAt, getObj, ha]
     rw [this]; exact clean_badOp
   | some a => exact clean_of_total (clearAt_total I ha)
 
@@ -1296,18 +1659,38 @@ theorem destroyAt_clean {s : St} {i : Nat} (I : Inv s) : Clean (destroyAt s i) :
     rw [this]; exact clean_badOp
   | some a => exact clean_of_total (destroyAt_total I ha)
 
-theorem resizeAt_clean {s : St} {i : Nat} {n v0 : Int} (I : Inv s) : Clean (resizeAt s i n v0) := by
+theorem resizeCheck_err {k : Kind} {strict : Bool} {n0 n1 : Int} {e : Err}
+    (h : resizeCheck k strict n0 n1 = .error e) : e = .invalidDimension := by
+  unfold resizeCheck at h
+  repeat' split at h
+  all_goals first | (cases h; rfl) | cases h
+
+theorem resizeAt_clean {s : St} {i : Nat} {strict : Bool} {n0 n1 v0 : Int} (I : Inv s) :
+    Clean (resizeAt s i strict n0 n1 v0) := by
   unfold resizeAt
   cases hg : getObj s i with
   | error e => rw [getObj_err hg]; exact clean_badOp
   | ok a =>
     simp only
-    split
-    · exact clean_err (by decide) (by decide)
-    · split
-      · exact clearAt_clean I
-      · obtain ⟨s1, h1⟩ := releaseAt_total I (getObj_ok.mp hg)
-        rw [h1]; exact clean_ok _
+    cases hc : resizeCheck a.kind strict n0 n1 with
+    | error e => rw [resizeCheck_err hc]; exact clean_err (by decide) (by decide)
+    | ok r =>
+      cases r with
+      | none => exact clearAt_clean I
+      | some pr =>
+        obtain ⟨m0, m1⟩ := pr
+        simp only
+        obtain ⟨s1, h1⟩ := releaseAt_total I (getObj_ok.mp hg)
+        rw [h1]; simp only
+        split <;> exact clean_ok _
+
+theorem newAt_clean {s : St} {k : Kind} {n0 n1 v0 : Int} (I : Inv s) : Clean (newAt s k n0 n1 v0) := by
+  unfold newAt
+  cases hr : resizeAt (push s (blank k)) s.pool.length (!k.isArray) n0 n1 v0 with
+  | error e =>
+    have := resizeAt_clean (i := s.pool.length) (strict := !k.isArray) (n0 := n0) (n1 := n1) (v0 := v0) (push_blank_inv I k)
+    rw [hr] at this; exact this
+  | ok s1 => simp only; split <;> exact clean_ok _
 
 theorem linkNew_total {s : St} {o : Obj} (F : Fits s o) : ∃ s', linkNew s o = .ok s' := by
   unfold linkNew
@@ -1317,6 +1700,40 @@ theorem linkNew_total {s : St} {o : Obj} (F : Fits s o) : ∃ s', linkNew s o = 
     obtain ⟨r, hr, hf, _⟩ := F.held σ ho
     unfold addLink
     simp [hr, hf]
+
+/-- the member functions themselves only throw documented exceptions -/
+theorem evalView_err {b : Obj} {f : ViewFn} {e : Err} (h : evalView b f = .error e) :
+    e ≠ .fault ∧ e ≠ .linkUnderflow := by
+  unfold evalView at h
+  repeat' split at h
+  all_goals first | (cases h; exact ⟨by decide, by decide⟩) | cases h
+
+theorem viewCtor_clean {s : St} {b : Obj} {v : ViewSpec} (I : Inv s) (hm : b ∈ s.pool) : Clean (viewCtor s b v) := by
+  unfold viewCtor
+  split
+  · exact clean_err (by decide) (by decide)
+  · split
+    · exact clean_err (by decide) (by decide)
+    · split
+      · exact clean_badOp
+      · simp only
+        split
+        · rename_i hc
+          exact clean_of_total (linkNew_total (fits_view I hm hc))
+        · exact clean_badOp
+
+theorem viewAt_clean {s : St} {j : Nat} {f : ViewFn} (I : Inv s) : Clean (viewAt s j f) := by
+  unfold viewAt
+  cases hg : getObj s j with
+  | error e => rw [getObj_err hg]; exact clean_badOp
+  | ok b =>
+    simp only
+    cases he : evalView b f with
+    | error e => exact clean_err (evalView_err he).1 (evalView_err he).2
+    | ok r =>
+      cases r with
+      | empty k => exact clean_ok _
+      | ctor v => exact viewCtor_clean I (List.mem_of_getElem? (getObj_ok.mp hg))
 
 theorem linkAt_clean {s : St} {i j : Nat} (I : Inv s) : Clean (linkAt s i j) := by
   unfold linkAt
@@ -1328,22 +1745,24 @@ theorem linkAt_clean {s : St} {i j : Nat} (I : Inv s) : Clean (linkAt s i j) := 
     | ok b =>
       simp only
       split
-      · exact clean_err (by decide) (by decide)
-      · obtain ⟨s1, hc⟩ := clearAt_total I (getObj_ok.mp hgi)
-        rw [hc]
-        simp only
-        obtain ⟨I1, _⟩ := clearAt_spec I hc
-        cases hb1 : getObj s1 j with
-        | error e => rw [getObj_err hb1]; exact clean_badOp
-        | ok b1 =>
+      · exact clean_badOp
+      · split
+        · exact clean_err (by decide) (by decide)
+        · obtain ⟨s1, hc⟩ := clearAt_total I (getObj_ok.mp hgi)
+          rw [hc]
           simp only
-          have F := fits_of_mem I1 (List.mem_of_getElem? (getObj_ok.mp hb1))
-          cases hs : b1.storage with
-          | none => exact clean_ok _
-          | some σ =>
-            obtain ⟨r, hr, hf, _⟩ := F.held σ hs
-            simp only [addLink, hr, hf]
-            exact clean_ok _
+          obtain ⟨I1, _⟩ := clearAt_spec I hc
+          cases hb1 : getObj s1 j with
+          | error e => rw [getObj_err hb1]; exact clean_badOp
+          | ok b1 =>
+            simp only
+            have F := fits_of_mem I1 (List.mem_of_getElem? (getObj_ok.mp hb1))
+            cases hs : b1.storage with
+            | none => exact clean_ok _
+            | some σ =>
+              obtain ⟨r, hr, hf, _⟩ := F.held σ hs
+              simp only [addLink, hr, hf]
+              exact clean_ok _
 
 theorem readCell_err {s : St} {r : Region} {c : Nat} {e : Err} (h : readCell s r c = .error e) : e = .badAccess := by
   unfold readCell at h
@@ -1356,32 +1775,35 @@ theorem writeCell_err {s : St} {r : Region} {c : Nat} {v : Int} {e : Err} (h : w
   repeat' split at h
   all_goals first | (cases h; rfl) | cases h
 
-theorem readFrom_err {s : St} {o : Obj} : ∀ (n k : Nat) {e : Err}, readFrom s o k n = .error e → e = .badAccess := by
-  intro n
-  induction n with
-  | zero => intro k e h; simp [readFrom] at h
-  | succ n ih =>
-    intro k e h
-    unfold readFrom at h
-    cases hc : readCell s o.region (cellOf o k) with
+theorem readCells_err {s : St} {r : Region} : ∀ (cs : List Nat) {e : Err}, readCells s r cs = .error e → e = .badAccess := by
+  intro cs
+  induction cs with
+  | nil => intro e h; simp [readCells] at h
+  | cons c cs ih =>
+    intro e h
+    unfold readCells at h
+    cases hc : readCell s r c with
     | error e' => simp only [hc] at h; cases h; exact readCell_err hc
     | ok v =>
       simp only [hc] at h
-      cases hr : readFrom s o (k + 1) n with
-      | error e' => simp only [hr] at h; cases h; exact ih (k + 1) hr
+      cases hr : readCells s r cs with
+      | error e' => simp only [hr] at h; cases h; exact ih hr
       | ok vs => simp [hr] at h
 
-theorem writeFrom_err {o : Obj} : ∀ (vs : List Int) (s : St) (k : Nat) {e : Err}, writeFrom s o k vs = .error e →
-    e = .badAccess := by
-  intro vs
-  induction vs with
-  | nil => intro s k e h; simp [writeFrom] at h
-  | cons v vs ih =>
-    intro s k e h
-    unfold writeFrom at h
-    cases hw : writeCell s o.region (cellOf o k) v with
-    | error e' => simp only [hw] at h; cases h; exact writeCell_err hw
-    | ok s1 => simp only [hw] at h; exact ih s1 (k + 1) h
+theorem writeCells_err {r : Region} : ∀ (cs : List Nat) (vs : List Int) (s : St) {e : Err},
+    writeCells s r cs vs = .error e → e = .badAccess := by
+  intro cs
+  induction cs with
+  | nil => intro vs s e h; simp [writeCells] at h
+  | cons c cs ih =>
+    intro vs s e h
+    cases vs with
+    | nil => simp [writeCells] at h
+    | cons v vs =>
+      unfold writeCells at h
+      cases hw : writeCell s r c v with
+      | error e' => simp only [hw] at h; cases h; exact writeCell_err hw
+      | ok s1 => simp only [hw] at h; exact ih vs s1 h
 
 theorem clean_badAccess : Clean (.error .badAccess) := clean_err (by decide) (by decide)
 
@@ -1395,31 +1817,37 @@ theorem assignCopyAt_clean {s : St} {i j : Nat} (I : Inv s) : Clean (assignCopyA
     | ok b =>
       simp only
       split
-      · rename_i e he
-        -- the error comes from resize (clean) or is size_mismatch
-        split at he
-        · have := resizeAt_clean (i := i) (n := (b.len : Int)) (v0 := 0) I
-          rw [he] at this; exact this
-        · split at he
-          · cases he; exact clean_err (by decide) (by decide)
-          · cases he
-      · rename_i s1 hs1
-        cases h1 : getObj s1 i with
-        | error e => rw [getObj_err h1]; exact clean_badOp
-        | ok a1 =>
-          cases h2 : getObj s1 j with
-          | error e => rw [getObj_err h2]; exact clean_badOp
-          | ok b1 =>
-            simp only
-            split
-            · exact clean_ok _
-            · cases hr : readView s1 b1 with
-              | error e => rw [readFrom_err _ _ hr]; exact clean_badAccess
-              | ok vs =>
-                simp only
-                cases hw : writeFrom s1 a1 0 vs with
-                | error e => rw [writeFrom_err _ _ _ hw]; exact clean_badAccess
-                | ok s2 => exact clean_ok _
+      · exact clean_badOp
+      · split
+        · rename_i e he
+          -- the error comes from resize (clean) or is size_mismatch
+          split at he
+          · have := resizeAt_clean (i := i) (strict := false) (n0 := (dimsOf b).1) (n1 := (dimsOf b).2) (v0 := 0) I
+            rw [he] at this; exact this
+          · split at he
+            · cases he; exact clean_err (by decide) (by decide)
+            · cases he
+        · rename_i s1 hs1
+          cases h1 : getObj s1 i with
+          | error e => rw [getObj_err h1]; exact clean_badOp
+          | ok a1 =>
+            cases h2 : getObj s1 j with
+            | error e => rw [getObj_err h2]; exact clean_badOp
+            | ok b1 =>
+              simp only
+              split
+              · exact clean_ok _
+              · split
+                · exact clean_ok _
+                · split
+                  · exact clean_ok _
+                  · split
+                    · rename_i e hr
+                      rw [readCells_err _ hr]; exact clean_badAccess
+                    · rename_i vs hr
+                      cases hw : writeCells (if aliased a1 b1 = true then (allocTick s1).1 else s1) a1.region (cells a1) vs with
+                      | error e => rw [writeCells_err _ _ _ hw]; exact clean_badAccess
+                      | ok s2 => exact clean_ok _
 
 theorem ownsUnshared_total {s : St} {o : Obj} (I : Inv s) (hm : o ∈ s.pool) : ∃ b, ownsUnshared s o = .ok b := by
   unfold ownsUnshared
@@ -1438,96 +1866,197 @@ theorem assignMoveAt_clean {s : St} {i j : Nat} (I : Inv s) : Clean (assignMoveA
     | error e => rw [getObj_err hgj]; exact clean_badOp
     | ok b =>
       simp only
-      obtain ⟨ba, hba⟩ := ownsUnshared_total I (List.mem_of_getElem? (getObj_ok.mp hgi))
-      obtain ⟨bb, hbb⟩ := ownsUnshared_total I (List.mem_of_getElem? (getObj_ok.mp hgj))
-      have hl : ∃ bl, (if a.len = 0 then (Except.ok true : Except Err Bool) else ownsUnshared s a) = .ok bl := by
-        split
-        · exact ⟨true, rfl⟩
-        · exact ⟨ba, hba⟩
-      obtain ⟨bl, hbl⟩ := hl
-      rw [hbl, hbb]
-      cases bl with
-      | false => exact assignCopyAt_clean I
-      | true =>
-        cases bb with
-        | false => exact assignCopyAt_clean I
-        | true =>
-          simp only
-          split
-          · exact clean_ok _
-          · exact clean_err (by decide) (by decide)
+      split
+      · exact clean_badOp
+      · split
+        · exact assignCopyAt_clean I
+        · obtain ⟨ba, hba⟩ := ownsUnshared_total I (List.mem_of_getElem? (getObj_ok.mp hgi))
+          obtain ⟨bb, hbb⟩ := ownsUnshared_total I (List.mem_of_getElem? (getObj_ok.mp hgj))
+          have hl : ∃ bl, (if a.len = 0 then (Except.ok true : Except Err Bool) else ownsUnshared s a) = .ok bl := by
+            split
+            · exact ⟨true, rfl⟩
+            · exact ⟨ba, hba⟩
+          obtain ⟨bl, hbl⟩ := hl
+          rw [hbl, hbb]
+          cases bl with
+          | false => exact assignCopyAt_clean I
+          | true =>
+            cases bb with
+            | false => exact assignCopyAt_clean I
+            | true =>
+              simp only
+              split
+              · exact clean_ok _
+              · exact clean_err (by decide) (by decide)
+
+theorem swapAt_clean {s : St} {i j : Nat} : Clean (swapAt s i j) := by
+  unfold swapAt
+  cases hgi : getObj s i with
+  | error e => rw [getObj_err hgi]; exact clean_badOp
+  | ok a =>
+    cases hgj : getObj s j with
+    | error e => rw [getObj_err hgj]; exact clean_badOp
+    | ok b =>
+      simp only
+      split
+      · exact clean_badOp
+      · exact clean_ok _
+
+theorem newSumAt_clean {s : St} {j1 j2 : Nat} (I : Inv s) : Clean (newSumAt s j1 j2) := by
+  unfold newSumAt
+  cases hg1 : getObj s j1 with
+  | error e => rw [getObj_err hg1]; exact clean_badOp
+  | ok b =>
+    cases hg2 : getObj s j2 with
+    | error e => rw [getObj_err hg2]; exact clean_badOp
+    | ok c =>
+      simp only
+      split
+      · exact clean_badOp
+      · split
+        · exact clean_err (by decide) (by decide)
+        · cases hrb : readView s b with
+          | error e => rw [readCells_err _ hrb]; exact clean_badAccess
+          | ok vb =>
+            cases hrc : readView s c with
+            | error e => rw [readCells_err _ hrc]; exact clean_badAccess
+            | ok vc =>
+              simp only
+              cases hrs : resizeAt (push s (blank b.kind)) s.pool.length false (↑b.len) 0 0 with
+              | error e =>
+                have := resizeAt_clean (i := s.pool.length) (strict := false) (n0 := (b.len : Int)) (n1 := 0) (v0 := 0)
+                  (push_blank_inv I b.kind)
+                rw [hrs] at this; exact this
+              | ok s1 =>
+                simp only
+                split
+                · exact clean_ok _
+                · cases hg : getObj s1 s.pool.length with
+                  | error e => rw [getObj_err hg]; exact clean_badOp
+                  | ok a1 =>
+                    simp only
+                    cases hw : writeCells s1 a1.region (cells a1) (List.zipWith (· + ·) vb vc) with
+                    | error e => rw [writeCells_err _ _ _ hw]; exact clean_badAccess
+                    | ok s2 => exact clean_ok _
 
 /-- in a state satisfying the invariant no operation touches a deleted Storage object or removes a link that is
     not there: `delete this` cannot run twice, the `invalid_operation` of `remove_link` is unreachable -/
-theorem no_storage_fault {s : St} (I : Inv s) (op : Op) : Clean (step s op) := by
+theorem no_storage_faultCore {s : St} (I : Inv s) (op : Op) : Clean (stepCore s op) := by
   cases op with
   | xnew n v0 => exact clean_ok _
   | xwrite x k v =>
-    simp only [step, xwriteAt]
+    simp only [stepCore, xwriteAt]
     split
     · exact clean_badOp
     · split
       · exact clean_ok _
       · exact clean_badOp
   | xend x =>
-    simp only [step, xendAt]
+    simp only [stepCore, xendAt]
     split
     · exact clean_badOp
     · split
       · exact clean_ok _
       · exact clean_badOp
-  | new n v0 => exact resizeAt_clean (push_inv I rfl (by intro σ h; cases h))
-  | newEmpty => exact clean_ok _
+  | new k n0 n1 v0 => exact newAt_clean I
+  | newEmpty k => exact clean_ok _
   | newExternal x off n =>
-    simp only [step, newExternalAt]
+    simp only [stepCore, newExternalAt]
     split
     · exact clean_badOp
     · split
-      · exact clean_ok _
-      · exact clean_badOp
+      · exact clean_err (by decide) (by decide)
+      · split
+        · exact clean_ok _
+        · exact clean_badOp
   | copyCtor j =>
-    simp only [step, copyCtorAt]
+    simp only [stepCore, copyCtorAt]
     cases hg : getObj s j with
     | error e => rw [getObj_err hg]; exact clean_badOp
     | ok b => exact clean_of_total (linkNew_total (fits_of_mem I (List.mem_of_getElem? (getObj_ok.mp hg))))
-  | slice j lo hi st =>
-    simp only [step, sliceAt]
-    cases hg : getObj s j with
-    | error e => rw [getObj_err hg]; exact clean_badOp
-    | ok b =>
-      simp only
-      split
-      · exact clean_badOp
-      · split
-        · rename_i hgd
-          have hm := List.mem_of_getElem? (getObj_ok.mp hg)
-          refine clean_of_total (linkNew_total ⟨?_, ?_⟩)
-          · intro σ hσ; exact I.inScope b hm σ hσ
-          · intro σ hσ
-            obtain ⟨r, hr, hf, hreg, hin⟩ := I.objs b hm σ hσ
-            exact ⟨r, hr, hf, hreg, inside_slice hin hgd⟩
-        · exact clean_badOp
+  | view j f => exact viewAt_clean I
   | softLink j =>
-    simp only [step, softLinkAt]
+    simp only [stepCore, softLinkAt]
     cases hg : getObj s j with
     | error e => rw [getObj_err hg]; exact clean_badOp
     | ok b => exact clean_ok _
   | link i j => exact linkAt_clean I
   | assignCopy i j => exact assignCopyAt_clean I
   | assignMove i j => exact assignMoveAt_clean I
-  | resize i n v0 => exact resizeAt_clean I
+  | resize i strict n0 n1 v0 => exact resizeAt_clean I
   | clear i => exact clearAt_clean I
   | destroy i => exact destroyAt_clean I
   | write i k v =>
-    simp only [step, writeAt]
+    simp only [stepCore, writeAt]
     cases hg : getObj s i with
     | error e => rw [getObj_err hg]; exact clean_badOp
     | ok a =>
       simp only
       split
-      · cases hw : writeCell s a.region (cellOf a k) v with
+      · rename_i c hc
+        cases hw : writeCell s a.region c v with
         | error e => rw [writeCell_err hw]; exact clean_badAccess
         | ok s' => exact clean_ok _
       · exact clean_badOp
+  | swap i j => exact swapAt_clean
+  | newSum j1 j2 => exact newSumAt_clean I
+  | failNext k => exact clean_ok _
+
+theorem no_storage_fault {s : St} (I : Inv s) (op : Op) : Clean (step s op) :=
+  no_storage_faultCore (s := { s with thrown := false }) ⟨I.core, I.grad⟩ op
+
+/-! ### rejected operations; temporaries -/
+
+/-- a rejected operation can be struck from a history: the run continues from the state before the call -/
+theorem stepOrStay_rejected {s : St} {op : Op} {e : Err} (h : step s op = .error e) : stepOrStay s op = s := by
+  unfold stepOrStay; rw [h]
+
+theorem run_skip_rejected {s : St} (ops1 ops2 : List Op) {op : Op} {e : Err}
+    (h : step (run s ops1) op = .error e) : run s (ops1 ++ op :: ops2) = run s (ops1 ++ ops2) := by
+  have hs := stepOrStay_rejected h
+  unfold run at hs ⊢
+  rw [List.foldl_append, List.foldl_append, List.foldl_cons, hs]
+
+theorem eraseIdx_append_last {α} (l : List α) (x : α) : (l ++ [x]).eraseIdx l.length = l := by
+  induction l with
+  | nil => rfl
+  | cons a l ih => simp [ih]
+
+theorem St.ext' {s t : St} (h1 : s.heap = t.heap) (h2 : s.smem = t.smem) (h3 : s.exts = t.exts) (h4 : s.pool = t.pool)
+    (h5 : s.created = t.created) (h6 : s.deleted = t.deleted) (h7 : s.gradReg = t.gradReg)
+    (h8 : s.failIn = t.failIn) (h9 : s.thrown = t.thrown) : s = t := by
+  cases s; cases t; simp_all
+
+/-- an object built by a linking constructor (copy construction, any view) and destroyed again — a by-value
+    parameter, a temporary slice, the local copy inside `T()` — leaves the state exactly as it was: the link it took
+    is the link it gives back, nothing is released -/
+theorem linkNew_destroy_roundtrip {s s1 s2 : St} {o : Obj} (I : Inv s) (F : Fits s o) (h1 : linkNew s o = .ok s1)
+    (h2 : destroyAt s1 s.pool.length = .ok s2) : s2 = s := by
+  unfold linkNew at h1
+  unfold destroyAt releaseAt getObj at h2
+  cases ho : o.storage with
+  | none =>
+    simp only [ho] at h1; cases h1
+    simp [push, ho] at h2
+    subst h2
+    apply St.ext' <;> simp [eraseIdx_append_last]
+  | some σ =>
+    simp only [ho] at h1
+    obtain ⟨r, hr, hf, _, _⟩ := F.held σ ho
+    have hpos := (I.counts σ r hr hf).2
+    unfold addLink at h1
+    simp only [hr, hf] at h1
+    simp at h1; subst h1
+    have hσ : σ < s.heap.length := by
+      rcases List.getElem?_eq_some_iff.mp hr with ⟨hlt, _⟩; exact hlt
+    have hne : r.nLinks + 1 ≠ 0 := by omega
+    have hne' : ¬ r.nLinks = 0 := by omega
+    simp [push, ho, removeLink, hσ, hne', setObj] at h2
+    subst h2
+    have hback : s.heap.set σ { nLinks := r.nLinks, freed := false, size := r.size, active := r.active } = s.heap := by
+      have : ({ nLinks := r.nLinks, freed := false, size := r.size, active := r.active } : Sto) = r := by
+        cases r; simp at hf ⊢; exact hf
+      rw [this]; exact list_set_same hr
+    apply St.ext' <;> simp [hback, eraseIdx_append_last]
 
 end Adept.Storage
